@@ -105,26 +105,61 @@ Proof. unfold Heap.add. destruct (Z.ltb_spec h 0); [discriminate|auto]. Qed.
 Definition passEv (e : event) : Prop :=
   match e with EvUpd _ | EvObsUpd _ _ | EvPassStart | EvPassEnd _ => False | _ => True end.
 
+Definition act_ok (okv : nid -> Prop) (a : action) : Prop :=
+  match a with ASet v _ | AUpdate v _ => okv v | AFail _ => True end.
+(* every write a plan performs targets an admissible var *)
+Definition planv (okv : nid -> Prop) (p : plan) : Prop := forall n w, Forall (act_ok okv) (actions_of p n w).
+
+(* [R]: the relation; [hok h h']: how the handler set may change (one insertion or one removal);
+   [okv]: the vars a plan may write *)
+Record frame_hyps (R : state -> state -> Prop) (hok : list nid -> list nid -> Prop) (okv : nid -> Prop) : Prop := {
+  fh_hok_insert : forall h k, hok h (insert_sorted k h);
+  fh_hok_rm : forall h n, hok h (rm n h);
+  fh_refl : forall s, R s s;
+  fh_trans : forall s1 s2 s3, R s1 s2 -> R s2 s3 -> R s1 s3;
+  (* node updates never touch the kind or the scope of a node *)
+  fh_upd : forall s n f,
+    (forall x, nkind (f x) = nkind x) -> (forall x, scope (f x) = scope x) -> R s (upd s n f);
+  fh_updb : forall s b f, R s (updb s b f);
+  fh_emit : forall s e, passEv e -> R s (emit e s);
+  fh_heap : forall s w, R s (s <| heap := w |>);
+  fh_adj : forall s w, R s (s <| adj := w |>);
+  fh_invq : forall s w, R s (s <| invq := w |>);
+  fh_numNodes : forall s w, R s (s <| numNodes := w |>);
+  fh_reg : forall s w, R s (s <| reg := w |>);
+  fh_handlers : forall s w, hok (handlers s) w -> R s (s <| handlers := w |>);
+  (* a deferred write files the var; teardown moves it to the removed list *)
+  fh_defer : forall s v, okv v -> R s (s <| setDuring := insert_sorted v (setDuring s) |>);
+  fh_zero_sets : forall s n,
+    R s (s <| setRemoved := if bool_decide (n ∈ setDuring s) then setRemoved s ++ [n] else setRemoved s |>
+           <| setDuring := rm n (setDuring s) |>);
+  (* creation: a fresh record at [next s], the counter advances *)
+  fh_newNode : forall s x, R s (s <| nodes := <[next s := x]> (nodes s) |> <| next := S (next s) |>);
+  fh_newBindrec : forall s r, R s (s <| binds := <[next s := r]> (binds s) |>)
+}.
+
 Section Frame.
   Variable R : state -> state -> Prop.
-  Hypothesis R_refl : forall s, R s s.
-  Hypothesis R_trans : forall s1 s2 s3, R s1 s2 -> R s2 s3 -> R s1 s3.
-  (* node updates never touch the kind or the scope of a node *)
-  Hypothesis R_upd : forall s n f,
-    (forall x, nkind (f x) = nkind x) -> (forall x, scope (f x) = scope x) -> R s (upd s n f).
-  Hypothesis R_updb : forall s b f, R s (updb s b f).
-  Hypothesis R_emit : forall s e, passEv e -> R s (emit e s).
-  Hypothesis R_heap : forall s w, R s (s <| heap := w |>).
-  Hypothesis R_adj : forall s w, R s (s <| adj := w |>).
-  Hypothesis R_invq : forall s w, R s (s <| invq := w |>).
-  Hypothesis R_numNodes : forall s w, R s (s <| numNodes := w |>).
-  Hypothesis R_reg : forall s w, R s (s <| reg := w |>).
-  Hypothesis R_handlers : forall s w, R s (s <| handlers := w |>).
-  Hypothesis R_setRemoved : forall s w, R s (s <| setRemoved := w |>).
-  Hypothesis R_setDuring : forall s w, R s (s <| setDuring := w |>).
-  (* creation: a fresh record at [next s], the counter advances *)
-  Hypothesis R_newNode : forall s x, R s (s <| nodes := <[next s := x]> (nodes s) |> <| next := S (next s) |>).
-  Hypothesis R_newBindrec : forall s r, R s (s <| binds := <[next s := r]> (binds s) |>).
+  Variable hok : list nid -> list nid -> Prop.
+  Variable okv : nid -> Prop.
+  Hypothesis FH : frame_hyps R hok okv.
+  Let hok_insert := fh_hok_insert R hok okv FH.
+  Let hok_rm := fh_hok_rm R hok okv FH.
+  Let R_refl := fh_refl R hok okv FH.
+  Let R_trans := fh_trans R hok okv FH.
+  Let R_upd := fh_upd R hok okv FH.
+  Let R_updb := fh_updb R hok okv FH.
+  Let R_emit := fh_emit R hok okv FH.
+  Let R_heap := fh_heap R hok okv FH.
+  Let R_adj := fh_adj R hok okv FH.
+  Let R_invq := fh_invq R hok okv FH.
+  Let R_numNodes := fh_numNodes R hok okv FH.
+  Let R_reg := fh_reg R hok okv FH.
+  Let R_handlers := fh_handlers R hok okv FH.
+  Let R_defer := fh_defer R hok okv FH.
+  Let R_zero_sets := fh_zero_sets R hok okv FH.
+  Let R_newNode := fh_newNode R hok okv FH.
+  Let R_newBindrec := fh_newBindrec R hok okv FH.
 
   Ltac side := intros []; reflexivity.
   Ltac rs :=
@@ -139,9 +174,9 @@ Section Frame.
     | |- R ?s (set invq _ ?t) => apply (R_trans s t); [rs|apply R_invq]
     | |- R ?s (set numNodes _ ?t) => apply (R_trans s t); [rs|apply R_numNodes]
     | |- R ?s (set reg _ ?t) => apply (R_trans s t); [rs|apply R_reg]
-    | |- R ?s (set handlers _ ?t) => apply (R_trans s t); [rs|apply R_handlers]
-    | |- R ?s (set setRemoved _ ?t) => apply (R_trans s t); [rs|apply R_setRemoved]
-    | |- R ?s (set setDuring _ ?t) => apply (R_trans s t); [rs|apply R_setDuring]
+    | |- R ?s (set handlers _ ?t) => apply (R_trans s t); [rs|apply R_handlers; first [apply hok_rm|apply hok_insert]]
+    | |- R ?s (set setDuring _ (set setRemoved _ ?t)) => apply (R_trans s t); [rs|apply (R_zero_sets t)]
+    | |- R ?s (set setDuring _ ?t) => apply (R_trans s t); [rs|apply (R_defer t); assumption]
     | |- R ?s (if ?c then _ else _) => destruct c; rs
     | |- R ?s (insert_handler _ ?t) => unfold insert_handler; rs
     | |- R ?s ?t =>
@@ -400,17 +435,18 @@ Section Frame.
     - injection H as <- <-. rs.
   Qed.
 
-  Lemma fr_varSet s v x s' : varSet s v x = Ok s' -> R s s'.
+  Lemma fr_varSet s v x s' : okv v -> varSet s v x = Ok s' -> R s s'.
   Proof.
+    intros Hokv.
     unfold varSet. destruct (_ && _ && _); [intros [= <-]; rs|].
     destruct (status s =? 1); [intros [= <-]; rs|].
     destruct (isNecessary _); [intros H%fr_setStale|intros [= <-]]; rs.
   Qed.
 
-  Lemma fr_varUpdate s v d s' : varUpdate s v d = Ok s' -> R s s'.
+  Lemma fr_varUpdate s v d s' : okv v -> varUpdate s v d = Ok s' -> R s s'.
   Proof. apply fr_varSet. Qed.
 
-  Lemma fr_applyActions_gen acts : forall s f s' f',
+  Lemma fr_applyActions_gen acts : Forall (act_ok okv) acts -> forall s f s' f',
     rfold (fun '(s, f) a =>
            match f with
            | Some _ => Ok (s, f)
@@ -422,25 +458,30 @@ Section Frame.
              end
            end) acts (s, f) = Ok (s', f') -> R s s'.
   Proof.
-    induction acts as [|a acts IH]; intros s f s' f' H; cbn [rfold] in H.
+    induction acts as [|a acts IH]; intros Hacts s f s' f' H; cbn [rfold] in H.
     - injection H as <- <-. rs.
-    - apply rbind_ok in H as ([s1 f1] & H1 & H%IH).
+    - apply Forall_cons_1 in Hacts as [Ha Hacts].
+      apply rbind_ok in H as ([s1 f1] & H1 & H%(IH Hacts)).
       assert (RR10 : R s s1); [|rs].
       destruct f; [injection H1 as <- <-; rs|].
       destruct a; [injection H1 as <- <-; rs| |];
-        apply rbind_ok in H1 as (s2 & H2 & [= <- <-]); [apply fr_varSet in H2|apply fr_varUpdate in H2]; rs.
+        apply rbind_ok in H1 as (s2 & H2 & [= <- <-]); [apply fr_varSet in H2|apply fr_varUpdate in H2]; try exact Ha; rs.
   Qed.
 
-  Lemma fr_applyActions s acts s' f : applyActions s acts = Ok (s', f) -> R s s'.
-  Proof. apply fr_applyActions_gen. Qed.
+  Lemma fr_applyActions s acts s' f : Forall (act_ok okv) acts -> applyActions s acts = Ok (s', f) -> R s s'.
+  Proof. intros Ha. apply fr_applyActions_gen, Ha. Qed.
 
-  Lemma fr_invoke p s n w s' e : invoke p s n w = Ok (s', e) -> R s s'.
+  Section WithPlan.
+  Variable p : plan.
+  Hypothesis Hp : planv okv p.
+
+  Lemma fr_invoke s n w s' e : invoke p s n w = Ok (s', e) -> R s s'.
   Proof.
-    unfold invoke. intros H. apply rbind_ok in H as ([s1 f] & H1%fr_applyActions & H).
+    unfold invoke. intros H. apply rbind_ok in H as ([s1 f] & H1%(fr_applyActions _ _ _ _ (Hp n w)) & H).
     destruct f as [[]|]; injection H as <- <-; rs.
   Qed.
 
-  Lemma fr_bindLhsStabilize fuel p s b s' e : bindLhsStabilize fuel p s b = Ok (s', e) -> R s s'.
+  Lemma fr_bindLhsStabilize fuel s b s' e : bindLhsStabilize fuel p s b = Ok (s', e) -> R s s'.
   Proof.
     unfold bindLhsStabilize. intros H.
     apply rbind_ok in H as ([[s1 e1] built] & H1 & H).
@@ -463,7 +504,7 @@ Section Frame.
     revert H3. apply fr_rfold. intros ? ? ?. apply fr_invalidateNode.
   Qed.
 
-  Lemma fr_stabilizeNode fuel p s n s' e : stabilizeNode fuel p s n = Ok (s', e) -> R s s'.
+  Lemma fr_stabilizeNode fuel s n s' e : stabilizeNode fuel p s n = Ok (s', e) -> R s s'.
   Proof.
     unfold stabilizeNode, ok, fail. intros H. destruct (nkind (nd s n)).
     - destruct (pending _); [destruct (_ =? _)|]; injection H as <- <-; rs.
@@ -513,7 +554,7 @@ Section Frame.
   Qed.
 
   (* the shared front part of recomputeNodeSerial / recomputeNodeParallel *)
-  Lemma fr_maybeCutoff p s0 n (x : node) s1 e cut :
+  Lemma fr_maybeCutoff s0 n (x : node) s1 e cut :
     match nkind x with
     | KCutoff c =>
       '(s, e) <-! invoke p s0 n WCut;
@@ -530,7 +571,7 @@ Section Frame.
     destruct e2; injection H as <- <- <-; rs.
   Qed.
 
-  Lemma fr_recomputeNodeSerial fuel p s n s' e imm :
+  Lemma fr_recomputeNodeSerial fuel s n s' e imm :
     recomputeNodeSerial fuel p s n = Ok (s', e, imm) -> R s s'.
   Proof.
     unfold recomputeNodeSerial. intros H.
@@ -559,26 +600,26 @@ Section Frame.
     apply rbind_ok in H4 as (s5 & H5%fr_heapAdd & [= <- <-]). rs.
   Qed.
 
-  Lemma fr_recomputeChain fuel : forall p s n s' e at_,
+  Lemma fr_recomputeChain fuel : forall s n s' e at_,
     recomputeChain fuel p s n = Ok (s', e, at_) -> R s s'.
   Proof.
-    induction fuel as [|fuel IH]; intros p s n s' e at_ H; [discriminate|]. cbn [recomputeChain] in H.
+    induction fuel as [|fuel IH]; intros s n s' e at_ H; [discriminate|]. cbn [recomputeChain] in H.
     apply rbind_ok in H as ([[s1 e1] imm] & H1%fr_recomputeNodeSerial & H).
     destruct e1; [injection H as <- <- <-; rs|].
     destruct imm; [apply IH in H|injection H as <- <- <-]; rs.
   Qed.
 
-  Lemma fr_passLoop fuel : forall p s always s' e at_ always',
+  Lemma fr_passLoop fuel : forall s always s' e at_ always',
     passLoop fuel p s always = Ok (s', e, at_, always') -> R s s'.
   Proof.
-    induction fuel as [|fuel IH]; intros p s always s' e at_ always' H; [discriminate|]. cbn [passLoop] in H.
+    induction fuel as [|fuel IH]; intros s always s' e at_ always' H; [discriminate|]. cbn [passLoop] in H.
     destruct (_ <=? 0); [injection H as <- <- <- <-; rs|].
     destruct (Heap.removeMin _) as [[n w]|]; [|discriminate].
     apply rbind_ok in H as ([[s1 e1] at1] & H1%fr_recomputeChain & H).
     destruct e1; [injection H as <- <- <- <-|apply IH in H]; rs.
   Qed.
 
-  Lemma fr_recomputeNodeParallel fuel p s n s' e :
+  Lemma fr_recomputeNodeParallel fuel s n s' e :
     recomputeNodeParallel fuel p s n = Ok (s', e) -> R s s'.
   Proof.
     unfold recomputeNodeParallel. intros H.
@@ -606,7 +647,7 @@ Section Frame.
     rs.
   Qed.
 
-  Lemma fr_parBlock fuel p block : forall s e always s' e' always',
+  Lemma fr_parBlock fuel block : forall s e always s' e' always',
     rfold (fun '(s, e, always) n =>
                 if height (nd s n) =? unset then Ok (s, e, always) else
                 '(s, e') <-! recomputeNodeParallel fuel p s n;
@@ -621,15 +662,16 @@ Section Frame.
       apply rbind_ok in H1 as ([s2 e2] & H2%fr_recomputeNodeParallel & [= <- <- <-]). rs.
   Qed.
 
-  Lemma fr_parLoop fuel : forall p s always s' e always',
+  Lemma fr_parLoop fuel : forall s always s' e always',
     parLoop fuel p s always = Ok (s', e, always') -> R s s'.
   Proof.
-    induction fuel as [|fuel IH]; intros p s always s' e always' H; [discriminate|]. cbn [parLoop] in H.
+    induction fuel as [|fuel IH]; intros s always s' e always' H; [discriminate|]. cbn [parLoop] in H.
     destruct (_ <=? 0); [injection H as <- <- <-; rs|].
     destruct (Heap.takeMinBlock _) as [block w].
     apply rbind_ok in H as ([[s1 e1] a1] & H1%fr_parBlock & H).
     destruct e1; [injection H as <- <- <-|apply IH in H]; rs.
   Qed.
+  End WithPlan.
 End Frame.
 
 (** ** The pass frame: what no function called from a pass loop changes.
@@ -704,47 +746,40 @@ Proof.
   - exists []. split; [reflexivity|constructor].
 Qed.
 
-Lemma pass_frame_thm (stmt : (state -> state -> Prop) -> Prop)
-  (H : forall R : state -> state -> Prop, (forall s, R s s) -> (forall s1 s2 s3, R s1 s2 -> R s2 s3 -> R s1 s3) ->
-        (forall s n f, (forall x, nkind (f x) = nkind x) -> (forall x, scope (f x) = scope x) -> R s (upd s n f)) ->
-        (forall s b f, R s (updb s b f)) -> (forall s e, passEv e -> R s (emit e s)) ->
-        (forall s w, R s (s <| heap := w |>)) -> (forall s w, R s (s <| adj := w |>)) ->
-        (forall s w, R s (s <| invq := w |>)) -> (forall s w, R s (s <| numNodes := w |>)) ->
-        (forall s w, R s (s <| reg := w |>)) -> (forall s w, R s (s <| handlers := w |>)) ->
-        (forall s w, R s (s <| setRemoved := w |>)) -> (forall s w, R s (s <| setDuring := w |>)) ->
-        (forall s x, R s (s <| nodes := <[next s := x]> (nodes s) |> <| next := S (next s) |>)) ->
-        (forall s r, R s (s <| binds := <[next s := r]> (binds s) |>)) -> stmt R) : stmt pframe.
+Lemma pframe_hyps : frame_hyps pframe (fun _ _ => True) (fun _ => True).
 Proof.
-  apply H;
-    [exact pframe_refl|exact pframe_trans|exact pframe_upd| |exact pframe_emit| | | | | | | | |exact pframe_newNode| ];
-    intros; apply pframe_same; reflexivity.
+  split; first [exact pframe_refl|exact pframe_trans|exact pframe_upd|exact pframe_emit|exact pframe_newNode
+               |intros; exact I|intros; apply pframe_same; reflexivity].
 Qed.
 
+Lemma planv_True p : planv (fun _ => True) p.
+Proof. intros n w. apply Forall_forall. intros [] _; exact I. Qed.
+
 Lemma pf_stabilizeNode fuel p s n s' e : stabilizeNode fuel p s n = Ok (s', e) -> pframe s s'.
-Proof. revert fuel p s n s' e. apply (pass_frame_thm (fun R => forall fuel p s n s' e, stabilizeNode fuel p s n = Ok (s', e) -> R s s')). exact fr_stabilizeNode. Qed.
+Proof. eapply fr_stabilizeNode; [exact pframe_hyps|apply planv_True]. Qed.
 Lemma pf_recomputeNodeSerial fuel p s n s' e imm :
   recomputeNodeSerial fuel p s n = Ok (s', e, imm) -> pframe s s'.
-Proof. revert fuel p s n s' e imm. apply (pass_frame_thm (fun R => forall fuel p s n s' e imm, recomputeNodeSerial fuel p s n = Ok (s', e, imm) -> R s s')). exact fr_recomputeNodeSerial. Qed.
+Proof. eapply fr_recomputeNodeSerial; [exact pframe_hyps|apply planv_True]. Qed.
 Lemma pf_recomputeChain fuel p s n s' e at_ :
   recomputeChain fuel p s n = Ok (s', e, at_) -> pframe s s'.
-Proof. revert fuel p s n s' e at_. apply (pass_frame_thm (fun R => forall fuel p s n s' e at_, recomputeChain fuel p s n = Ok (s', e, at_) -> R s s')). intros. eapply fr_recomputeChain; eauto. Qed.
+Proof. eapply fr_recomputeChain; [exact pframe_hyps|apply planv_True]. Qed.
 Lemma pf_passLoop fuel p s always s' e at_ always' :
   passLoop fuel p s always = Ok (s', e, at_, always') -> pframe s s'.
-Proof. revert fuel p s always s' e at_ always'. apply (pass_frame_thm (fun R => forall fuel p s always s' e at_ always', passLoop fuel p s always = Ok (s', e, at_, always') -> R s s')). intros. eapply fr_passLoop; eauto. Qed.
+Proof. eapply fr_passLoop; [exact pframe_hyps|apply planv_True]. Qed.
 Lemma pf_recomputeNodeParallel fuel p s n s' e :
   recomputeNodeParallel fuel p s n = Ok (s', e) -> pframe s s'.
-Proof. revert fuel p s n s' e. apply (pass_frame_thm (fun R => forall fuel p s n s' e, recomputeNodeParallel fuel p s n = Ok (s', e) -> R s s')). exact fr_recomputeNodeParallel. Qed.
+Proof. eapply fr_recomputeNodeParallel; [exact pframe_hyps|apply planv_True]. Qed.
 Lemma pf_parLoop fuel p s always s' e always' :
   parLoop fuel p s always = Ok (s', e, always') -> pframe s s'.
-Proof. revert fuel p s always s' e always'. apply (pass_frame_thm (fun R => forall fuel p s always s' e always', parLoop fuel p s always = Ok (s', e, always') -> R s s')). intros. eapply fr_parLoop; eauto. Qed.
+Proof. eapply fr_parLoop; [exact pframe_hyps|apply planv_True]. Qed.
 Lemma pf_bindLhsStabilize fuel p s b s' e : bindLhsStabilize fuel p s b = Ok (s', e) -> pframe s s'.
-Proof. revert fuel p s b s' e. apply (pass_frame_thm (fun R => forall fuel p s b s' e, bindLhsStabilize fuel p s b = Ok (s', e) -> R s s')). exact fr_bindLhsStabilize. Qed.
+Proof. eapply fr_bindLhsStabilize; [exact pframe_hyps|apply planv_True]. Qed.
 Lemma pf_invalidateNode fuel s n s' : invalidateNode fuel s n = Ok s' -> pframe s s'.
-Proof. revert fuel s n s'. apply (pass_frame_thm (fun R => forall fuel s n s', invalidateNode fuel s n = Ok s' -> R s s')). intros. eapply fr_invalidateNode; eauto. Qed.
+Proof. eapply fr_invalidateNode; exact pframe_hyps. Qed.
 Lemma pf_removeParents fuel s n s' : removeParents fuel s n = Ok s' -> pframe s s'.
-Proof. revert fuel s n s'. apply (pass_frame_thm (fun R => forall fuel s n s', removeParents fuel s n = Ok s' -> R s s')). intros. eapply fr_removeParents; eauto. Qed.
+Proof. eapply fr_removeParents; exact pframe_hyps. Qed.
 Lemma pf_invoke p s n w s' e : invoke p s n w = Ok (s', e) -> pframe s s'.
-Proof. revert p s n w s' e. apply (pass_frame_thm (fun R => forall p s n w s' e, invoke p s n w = Ok (s', e) -> R s s')). intros. eapply fr_invoke; eauto. Qed.
+Proof. eapply fr_invoke; [exact pframe_hyps|apply planv_True]. Qed.
 
 (** * 2. More basics: states that differ in the heap only; [setStale]; [wfb] clauses *)
 
@@ -940,6 +975,9 @@ Proof.
   - intros [= <-]. apply isVar_upd. intros []; reflexivity.
 Qed.
 
+Lemma proj_setAt_value (y : node) a : value (y <| setAt := a |>) = value y.
+Proof. destruct y; reflexivity. Qed.
+
 (** C12.1: a write between passes is the var's value at once; last write wins *)
 Lemma C12_set_between_passes s v x s' :
   status s = 0 -> isVar s v = true -> varSet s v x = Ok s' -> value (nd s' v) = x.
@@ -947,12 +985,12 @@ Proof.
   intros Hst Hv. pose proof (isVar_some _ _ Hv) as Hs. rewrite varSet_unfold.
   destruct (eqNoop s v x) eqn:En.
   { intros [= <-]. unfold eqNoop in En. apply andb_true_iff in En as [_ En]. lia. }
-  rewrite Hst. cbn [Z.eqb]. cbv zeta.
+  rewrite Hst. change (0 =? 1) with false. cbv iota zeta.
   assert (Hval : value (nd (upd s v (set value (fun _ => x))) v) = x).
   { rewrite nd_upd_same by exact Hs. destruct (nd s v); reflexivity. }
   destruct (isNecessary _); [|intros [= <-]; exact Hval].
-  intros H. destruct (setStale_nd _ _ _ v H) as [a ->]. revert Hval.
-  generalize (nd (upd s v (set value (fun _ => x))) v). intros [] E; exact E.
+  intros H. destruct (setStale_nd _ _ _ v H) as [a ->].
+  etransitivity; [apply proj_setAt_value|exact Hval].
 Qed.
 
 Lemma run_SetVar_cons s v x xs :
@@ -1014,7 +1052,7 @@ Proof. intros. rewrite varUpdate_unfold. apply C12_set_unobserved_total; assumpt
 Lemma C12_midpass_set_is_deferred s v x :
   status s = 1 -> varSet s v x = Ok (if eqNoop s v x then s else deferSet s v x).
 Proof.
-  intros Hst. rewrite varSet_unfold, Hst. cbn [Z.eqb]. destruct (eqNoop s v x); reflexivity.
+  intros Hst. rewrite varSet_unfold, Hst. change (1 =? 1) with true. destruct (eqNoop s v x); reflexivity.
 Qed.
 
 Lemma set_pending_eta (y : node) p : set pending (fun _ => p) y = y <| pending := pending (set pending (fun _ => p) y) |>.
@@ -1032,16 +1070,16 @@ Lemma deferSet_frame s v x :
   (is_Some (nodes s !! v) -> pending (nd s' v) = Some x).
 Proof.
   cbv zeta. unfold deferSet. repeat (split; [reflexivity|]).
-  change (forall m, nd (upd s v (set pending (fun _ => Some x))) m = nd s m <| pending := pending (nd (upd s v (set pending (fun _ => Some x))) m) |>)
-    /\ (forall m, m <> v -> nd (upd s v (set pending (fun _ => Some x))) m = nd s m)
-    /\ (is_Some (nodes s !! v) -> pending (nd (upd s v (set pending (fun _ => Some x))) v) = Some x).
-  split; [|split].
-  - intros m. rewrite nd_upd_if. destruct (decide (m = v)) as [->|Hne].
-    + destruct (nodes s !! v) eqn:E; [apply set_pending_eta|].
+  set (t := upd s v (set pending (fun _ => Some x))).
+  assert (A1 : forall m, nd t m = nd s m <| pending := pending (nd t m) |>).
+  { intros m. unfold t. rewrite nd_upd_if. destruct (decide (m = v)) as [->|Hne].
+    - destruct (nodes s !! v) eqn:E; [apply set_pending_eta|].
       unfold nd. rewrite E. reflexivity.
-    + destruct (nd s m); reflexivity.
-  - intros m Hne. apply nd_upd_other, Hne.
-  - intros Hs. rewrite nd_upd_same by exact Hs. destruct (nd s v); reflexivity.
+    - destruct (nd s m); reflexivity. }
+  assert (A2 : forall m, m <> v -> nd t m = nd s m) by (intros m Hne; apply nd_upd_other, Hne).
+  assert (A3 : is_Some (nodes s !! v) -> pending (nd t v) = Some x).
+  { intros Hs. unfold t. rewrite nd_upd_same by exact Hs. destruct (nd s v); reflexivity. }
+  split; [exact A1|]. split; [exact A2|exact A3].
 Qed.
 
 Lemma C12_midpass_set_frame s v x s' :
@@ -1097,4 +1135,1891 @@ Proof.
   destruct P2 as [P2|(_ & P2 & _)]; [rewrite P2, C1; reflexivity|].
   destruct P1 as [P1|(_ & P1 & K1)]; [congruence|].
   destruct Hk as [Hk|[? Hk]]; congruence.
+Qed.
+
+(** ** The anatomy of [recomputeNodeSerial] *)
+Definition maybeCutoff (p : plan) (s0 : state) (n : nid) (x : node) : res (state * option err * bool) :=
+  match nkind x with
+  | KCutoff c =>
+    let old := value x in
+    let new := valueOf s0 (hd 0%nat (decl x)) in
+    '(s, e) <-! invoke p s0 n WCut;
+    match e with
+    | Some e => Ok (s, Some e, false)
+    | None => let v := apCut c old new in Ok (emit (EvCutoff n old new v) s, None, v)
+    end
+  | _ => Ok (s0, None, false)
+  end.
+
+Definition failTail (s : state) (n : nid) (prev : Z) (e : err) : res (state * option err * option nid) :=
+  match e with
+  | EPanic m => Ok (s, Some (EPanic m), None)
+  | e => s <-! recomputeFailed s n prev; Ok (errorHandlers s n, Some e, None)
+  end.
+
+Definition successTail (s : state) (n : nid) : res (state * option err * option nid) :=
+  let s := upd s n (set changedAt (fun _ => stabNum s)) in
+  let s := insert_handler n s in
+  '(s, held) <-! childrenLoop s n;
+  '(s, imm) <-! (match held with
+                 | None => Ok (s, None)
+                 | Some h => if canRecomputeImmediately s n h then Ok (s, Some h)
+                             else s <-! heapAdd s h; Ok (s, None)
+                 end);
+  let s := foldl (fun s o => insert_handler o s) s (observers (nd s n)) in
+  Ok (s, None, imm).
+
+Lemma recomputeNodeSerial_unfold fuel p s n :
+  recomputeNodeSerial fuel p s n =
+  let x := nd s n in
+  let prev := recomputedAt x in
+  let s0 := upd s n (set recomputedAt (fun _ => stabNum s)) in
+  '(s1, e, cut) <-! maybeCutoff p s0 n x;
+  match e with
+  | Some e => failTail s1 n prev e
+  | None =>
+    if cut then Ok (s1, None, None) else
+    '(s2, e) <-! stabilizeNode fuel p s1 n;
+    match e with
+    | Some e => failTail s2 n prev e
+    | None => successTail s2 n
+    end
+  end.
+Proof.
+  unfold recomputeNodeSerial, maybeCutoff, failTail, successTail. cbv zeta.
+  destruct (match nkind (nd s n) with KCutoff _ => _ | _ => _ end) as [[[s1 [e|]] cut]| |]; cbn [rbind]; reflexivity.
+Qed.
+
+(* states that differ in the heap and the handler set only *)
+Definition hhOnly (s s' : state) : Prop := exists w h, s' = s <| heap := w |> <| handlers := h |>.
+
+Lemma hhOnly_refl s : hhOnly s s.
+Proof. exists (heap s), (handlers s). destruct s; reflexivity. Qed.
+Lemma hhOnly_trans s1 s2 s3 : hhOnly s1 s2 -> hhOnly s2 s3 -> hhOnly s1 s3.
+Proof. intros (w1 & h1 & ->) (w2 & h2 & ->). exists w2, h2. destruct s1; reflexivity. Qed.
+Lemma heapOnly_hhOnly s s' : heapOnly s s' -> hhOnly s s'.
+Proof. intros [w ->]. exists w, (handlers s). destruct s; reflexivity. Qed.
+Lemma hhOnly_nd s s' m : hhOnly s s' -> nd s' m = nd s m.
+Proof. intros (w & h & ->). reflexivity. Qed.
+Lemma hhOnly_log s s' : hhOnly s s' -> log s' = log s.
+Proof. intros (w & h & ->). reflexivity. Qed.
+Lemma insert_handler_hhOnly k s : hhOnly s (insert_handler k s).
+Proof. exists (heap s), (insert_sorted k (handlers s)). destruct s; reflexivity. Qed.
+Lemma insert_handlers_hhOnly l : forall s, hhOnly s (foldl (fun s o => insert_handler o s) s l).
+Proof.
+  induction l as [|o l IH]; intros s; cbn [foldl]; [apply hhOnly_refl|].
+  eapply hhOnly_trans; [apply (insert_handler_hhOnly o)|apply IH].
+Qed.
+Lemma insert_handlers_eq l : forall s,
+  foldl (fun s o => insert_handler o s) s l
+  = s <| handlers := foldl (fun h o => insert_sorted o h) (handlers s) l |>.
+Proof.
+  induction l as [|o l IH]; intros s; cbn [foldl].
+  - destruct s; reflexivity.
+  - rewrite IH. destruct s; reflexivity.
+Qed.
+
+Lemma childrenLoop_gen_heapOnly l : forall s held s' held',
+  rfold (fun '(s, held) c =>
+         if bool_decide (held = Some c) then Ok (s, held)
+         else if negb (shouldRecomputeChild s c) then Ok (s, held)
+         else
+           s <-! (match held with Some h => heapAdd s h | None => Ok s end);
+           Ok (s, Some c)) l (s, held) = Ok (s', held') -> heapOnly s s'.
+Proof.
+  induction l as [|c l IH]; intros s held s' held' H; cbn [rfold] in H.
+  - injection H as <- <-. apply heapOnly_refl.
+  - apply rbind_ok in H as ([s1 h1] & H1 & H%IH). eapply heapOnly_trans; [|exact H].
+    destruct (bool_decide _); [injection H1 as <- <-; apply heapOnly_refl|].
+    destruct (negb _); [injection H1 as <- <-; apply heapOnly_refl|].
+    apply rbind_ok in H1 as (s2 & H2 & [= <- <-]).
+    destruct held; [eapply heapAdd_heapOnly, H2|injection H2 as <-; apply heapOnly_refl].
+Qed.
+
+Lemma childrenLoop_heapOnly s n s' held : childrenLoop s n = Ok (s', held) -> heapOnly s s'.
+Proof. apply childrenLoop_gen_heapOnly. Qed.
+
+Lemma successTail_shape s n s' e imm :
+  successTail s n = Ok (s', e, imm) ->
+  e = None /\ hhOnly (upd s n (set changedAt (fun _ => stabNum s))) s'.
+Proof.
+  unfold successTail. intros H.
+  apply rbind_ok in H as ([s1 held] & H1%childrenLoop_heapOnly & H).
+  apply rbind_ok in H as ([s2 imm2] & H2 & [= <- <- <-]). split; [reflexivity|].
+  eapply hhOnly_trans; [apply (insert_handler_hhOnly n)|].
+  eapply hhOnly_trans; [apply heapOnly_hhOnly, H1|].
+  eapply hhOnly_trans; [|apply insert_handlers_hhOnly].
+  apply heapOnly_hhOnly. destruct held as [h|]; [|injection H2 as <- <-; apply heapOnly_refl].
+  destruct (canRecomputeImmediately _ _ _); [injection H2 as <- <-; apply heapOnly_refl|].
+  apply rbind_ok in H2 as (s3 & H3%heapAdd_heapOnly & [= <- <-]). exact H3.
+Qed.
+
+(** C12.5: the recompute cycle of the running pass never applies a deferred value *)
+Lemma C12_pending_not_taken_midpass fuel p s v e :
+  nkind (nd s v) = KVar e -> recomputedAt (nd s v) = stabNum s -> stabilizeNode fuel p s v = ok s.
+Proof.
+  intros Hk Hr. unfold stabilizeNode. rewrite Hk. destruct (pending (nd s v)); [|reflexivity].
+  rewrite Hr, Z.eqb_refl. reflexivity.
+Qed.
+
+Lemma C12_recompute_var_keeps_pending fuel p s v k s' e imm :
+  nkind (nd s v) = KVar k -> recomputeNodeSerial fuel p s v = Ok (s', e, imm) ->
+  e = None /\ log s' = log s /\ setDuring s' = setDuring s /\
+  forall m, value (nd s' m) = value (nd s m) /\ pending (nd s' m) = pending (nd s m).
+Proof.
+  intros Hk. assert (Hs : is_Some (nodes s !! v)) by (apply nd_some_kind; rewrite Hk; discriminate).
+  rewrite recomputeNodeSerial_unfold. cbv zeta. unfold maybeCutoff. rewrite Hk. cbn [rbind].
+  set (s0 := upd s v _).
+  assert (E0 : nd s0 v = nd s v <| recomputedAt := stabNum s |>) by (apply nd_upd_same, Hs).
+  rewrite (C12_pending_not_taken_midpass fuel p s0 v k).
+  2:{ rewrite E0. rewrite <- Hk. destruct (nd s v); reflexivity. }
+  2:{ rewrite E0. destruct (nd s v); reflexivity. }
+  unfold ok. cbn [rbind]. intros [-> Hh]%successTail_shape. split; [reflexivity|].
+  destruct Hh as (w & h & ->). split; [reflexivity|]. split; [reflexivity|]. intros m.
+  change (value (nd (upd s0 v (set changedAt (fun _ => stabNum s0))) m) = value (nd s m) /\
+          pending (nd (upd s0 v (set changedAt (fun _ => stabNum s0))) m) = pending (nd s m)).
+  rewrite (nd_upd_keep value), (nd_upd_keep pending) by (intros []; reflexivity).
+  unfold s0. rewrite (nd_upd_keep value), (nd_upd_keep pending) by (intros []; reflexivity). auto.
+Qed.
+
+(** C12.6: deferred writes are applied when the pass ends *)
+Definition dstep (s : state) (v : nid) : res state := '(s, _) <-! stabilizeNode 0 [] s v; setStale s v.
+
+Lemma applyDeferredSets_unfold s :
+  applyDeferredSets s =
+  (s1 <-! rfold dstep (setRemoved s ++ setDuring s) s; Ok (s1 <| setDuring := [] |> <| setRemoved := [] |>)).
+Proof. reflexivity. Qed.
+
+(* two node records that differ at most in value, pending and setAt *)
+Definition vps (x y : node) : Prop := exists a b c, y = x <| value := a |> <| pending := b |> <| setAt := c |>.
+
+Lemma vps_refl x : vps x x.
+Proof. exists (value x), (pending x), (setAt x). destruct x; reflexivity. Qed.
+Lemma vps_trans x y z : vps x y -> vps y z -> vps x z.
+Proof. intros (a & b & c & ->) (a' & b' & c' & ->). exists a', b', c'. destruct x; reflexivity. Qed.
+Lemma vps_fields x y : vps x y ->
+  nkind y = nkind x /\ decl y = decl x /\ scope y = scope x /\ height y = height x /\ hAdj y = hAdj x /\
+  recomputedAt y = recomputedAt x /\ changedAt y = changedAt x /\ parents y = parents x /\
+  children y = children x /\ observers y = observers x /\ valid y = valid x /\ forceNec y = forceNec x /\
+  inGraph y = inGraph x.
+Proof. intros (a & b & c & ->). destruct x; repeat split. Qed.
+
+(* what the end-of-pass application of deferred writes may change: value / pending / setAt of
+   nodes, and the heap (which only grows) *)
+Definition dfr (s s' : state) : Prop :=
+  (exists m w, s' = s <| nodes := m |> <| heap := w |>) /\
+  (forall n, vps (nd s n) (nd s' n)) /\
+  (forall n, isVar s' n = isVar s n) /\
+  (forall n, inHeap s n = true -> inHeap s' n = true).
+
+Lemma dfr_refl s : dfr s s.
+Proof.
+  split; [exists (nodes s), (heap s); destruct s; reflexivity|].
+  split; [intros n; apply vps_refl|]. split; auto.
+Qed.
+Lemma dfr_trans s1 s2 s3 : dfr s1 s2 -> dfr s2 s3 -> dfr s1 s3.
+Proof.
+  intros ((m1 & w1 & E1) & A2 & A3 & A4) ((m2 & w2 & E2) & B2 & B3 & B4).
+  split; [exists m2, w2; subst; destruct s1; reflexivity|].
+  split; [intros n; eapply vps_trans; eauto|]. split; [intros n; rewrite B3; apply A3|auto].
+Qed.
+Lemma dfr_state s s' : dfr s s' ->
+  binds s' = binds s /\ next s' = next s /\ reg s' = reg s /\ obs s' = obs s /\ adj s' = adj s /\
+  invq s' = invq s /\ stabNum s' = stabNum s /\ status s' = status s /\ numNodes s' = numNodes s /\
+  setDuring s' = setDuring s /\ setRemoved s' = setRemoved s /\ handlers s' = handlers s /\
+  maxHeight s' = maxHeight s /\ log s' = log s.
+Proof. intros ((m & w & ->) & _). repeat split. Qed.
+
+Lemma dfr_setStale s n s' : setStale s n = Ok s' -> dfr s s'.
+Proof.
+  intros H. split; [|split; [|split]].
+  - destruct (setStale_spec _ _ _ H) as [[_ ->]|(_ & [w ->] & _)].
+    + exists (nodes s), (heap s). destruct s; reflexivity.
+    + exists (nodes (upd s n (set setAt (fun _ => stabNum s)))), w. unfold upd. destruct s; reflexivity.
+  - intros m. destruct (setStale_nd _ _ _ m H) as [a ->].
+    exists (value (nd s m)), (pending (nd s m)), a. destruct (nd s m); reflexivity.
+  - intros m. eapply setStale_isVar, H.
+  - intros m Hm. destruct (setStale_spec _ _ _ H) as [[_ ->]|(_ & Ho & _)]; [exact Hm|].
+    revert H Hm. unfold setStale. destruct (_ =? unset); [intros [= <-]; auto|].
+    destruct (inHeap _ n); [intros [= <-]; auto|]. intros H Hm.
+    erewrite heapAdd_inHeap by exact H. apply orb_true_iff. right. exact Hm.
+Qed.
+
+Lemma dfr_upd_vp s n a b : dfr s (upd s n (fun x => x <| value := a |> <| pending := b |>)).
+Proof.
+  split; [|split; [|split]].
+  - exists (nodes (upd s n (fun x => x <| value := a |> <| pending := b |>))), (heap s).
+    unfold upd. destruct s; reflexivity.
+  - intros m. rewrite nd_upd_if. destruct (decide (m = n)) as [->|]; [|apply vps_refl].
+    destruct (nodes s !! n) eqn:E.
+    + exists a, b, (setAt (nd s n)). destruct (nd s n); reflexivity.
+    + unfold nd. rewrite E. apply vps_refl.
+  - intros m. apply isVar_upd. intros []; reflexivity.
+  - auto.
+Qed.
+
+Lemma dstep_var_inv s w s' :
+  isVar s w = true -> dstep s w = Ok s' ->
+  dfr s s' /\
+    (forall x, pending (nd s w) = Some x -> recomputedAt (nd s w) <> stabNum s ->
+               value (nd s' w) = x /\ pending (nd s' w) = None) /\
+    (pending (nd s w) = None -> value (nd s' w) = value (nd s w) /\ pending (nd s' w) = None) /\
+    (forall m, m <> w -> value (nd s' m) = value (nd s m) /\ pending (nd s' m) = pending (nd s m)).
+Proof.
+  intros Hv. pose proof (isVar_some _ _ Hv) as Hs. apply isVar_spec in Hv as [k Hk].
+  unfold dstep, stabilizeNode. rewrite Hk.
+  assert (Hpv : forall t t' m, setStale t w = Ok t' ->
+            value (nd t' m) = value (nd t m) /\ pending (nd t' m) = pending (nd t m)).
+  { intros t t' m Ht. destruct (setStale_nd _ _ _ m Ht) as [a ->]. destruct (nd t m); split; reflexivity. }
+  destruct (pending (nd s w)) as [pv|] eqn:Ep; [destruct (Z.eqb_spec (recomputedAt (nd s w)) (stabNum s)) as [Er|Er]|].
+  - (* stamped by this pass: not taken *)
+    unfold ok. cbn [rbind]. intros Hs'.
+    split; [eapply dfr_setStale, Hs'|]. split; [intros x _ Hne; contradiction|].
+    split; [discriminate|]. intros m _. apply (Hpv _ _ m Hs').
+  - unfold ok. cbn [rbind]. set (t := upd s w _). intros Hs'.
+    assert (Et : nd t w = nd s w <| value := pv |> <| pending := None |>) by (apply nd_upd_same, Hs).
+    split; [eapply dfr_trans; [apply dfr_upd_vp|eapply dfr_setStale, Hs']|].
+    split; [|split; [discriminate|]].
+    + intros x [= <-] _. destruct (Hpv _ _ w Hs') as [-> ->]. rewrite Et. destruct (nd s w); split; reflexivity.
+    + intros m Hne. destruct (Hpv _ _ m Hs') as [-> ->]. unfold t. rewrite nd_upd_other by exact Hne. auto.
+  - unfold ok. cbn [rbind]. intros Hs'.
+    split; [eapply dfr_setStale, Hs'|]. split; [discriminate|].
+    split; [intros _; destruct (Hpv _ _ w Hs') as [-> ->]; auto|]. intros m _. apply (Hpv _ _ m Hs').
+Qed.
+
+Lemma dstep_var_total s w :
+  isVar s w = true -> -1 <= height (nd s w) -> exists s', dstep s w = Ok s'.
+Proof.
+  intros Hv Hh. pose proof (isVar_some _ _ Hv) as Hs. apply isVar_spec in Hv as [k Hk].
+  unfold dstep, stabilizeNode. rewrite Hk.
+  destruct (pending (nd s w)) as [pv|] eqn:Ep; [destruct (recomputedAt (nd s w) =? stabNum s)|];
+    unfold ok; cbn [rbind]; try (apply setStale_total; exact Hh).
+  apply setStale_total. rewrite nd_upd_same by exact Hs. destruct (nd s w); exact Hh.
+Qed.
+
+Lemma dsteps_inv : forall l s s',
+  Forall (fun w => isVar s w = true) l -> rfold dstep l s = Ok s' ->
+  dfr s s' /\
+    forall v x,
+      (value (nd s v) = x /\ pending (nd s v) = None -> value (nd s' v) = x /\ pending (nd s' v) = None) /\
+      (v ∈ l -> pending (nd s v) = Some x -> recomputedAt (nd s v) <> stabNum s ->
+       value (nd s' v) = x /\ pending (nd s' v) = None).
+Proof.
+  induction l as [|w l IH]; intros s s' Hv H; cbn [rfold] in H.
+  - injection H as <-. split; [apply dfr_refl|]. intros v x. split; [auto|].
+    intros Hin. inversion Hin.
+  - apply Forall_cons_1 in Hv as [Hv Hvl]. apply rbind_ok in H as (s1 & E1 & E').
+    destruct (dstep_var_inv s w s1 Hv E1) as (D1 & P1 & P2 & P3).
+    destruct (IH s1 s') as (D' & Q); [|exact E'|].
+    { eapply Forall_impl; [|exact Hvl]. intros u Hu. destruct D1 as (_ & _ & D1 & _). rewrite D1. exact Hu. }
+    split; [eapply dfr_trans; eauto|].
+    assert (Hst : stabNum s1 = stabNum s) by (destruct (dfr_state _ _ D1) as (_ & _ & _ & _ & _ & _ & E & _); exact E).
+    assert (Hra : forall v, recomputedAt (nd s1 v) = recomputedAt (nd s v)).
+    { intros v. destruct D1 as (_ & D1 & _). destruct (vps_fields _ _ (D1 v)) as (_ & _ & _ & _ & _ & E & _). exact E. }
+    intros v x. split.
+    + intros [Ev Ep]. apply (proj1 (Q v x)). destruct (decide (v = w)) as [->|Hne].
+      * destruct (P2 Ep) as [E2 E3]. rewrite E2, E3. auto.
+      * destruct (P3 v Hne) as [E2 E3]. rewrite E2, E3. auto.
+    + intros Hin Ep Hr. destruct (decide (v = w)) as [->|Hne].
+      * apply (proj1 (Q w x)). apply P1; assumption.
+      * apply elem_of_cons in Hin as [->|Hin]; [contradiction|].
+        apply (proj2 (Q v x)); [exact Hin| |rewrite Hra, Hst; exact Hr].
+        destruct (P3 v Hne) as [_ E3]. rewrite E3. exact Ep.
+Qed.
+
+Lemma dsteps_total : forall l s,
+  Forall (fun w => isVar s w = true) l -> Forall (fun w => -1 <= height (nd s w)) l ->
+  exists s', rfold dstep l s = Ok s'.
+Proof.
+  induction l as [|w l IH]; intros s Hv Hh; [exists s; reflexivity|].
+  apply Forall_cons_1 in Hv as [Hv Hvl]. apply Forall_cons_1 in Hh as [Hh Hhl].
+  destruct (dstep_var_total s w Hv Hh) as [s1 E1].
+  destruct (dstep_var_inv s w s1 Hv E1) as (D1 & _).
+  destruct (IH s1) as [s' E'].
+  { eapply Forall_impl; [|exact Hvl]. intros u Hu. destruct D1 as (_ & _ & D1 & _). rewrite D1. exact Hu. }
+  { eapply Forall_impl; [|exact Hhl]. intros u Hu. cbv beta in *. destruct D1 as (_ & D1 & _).
+    destruct (vps_fields _ _ (D1 u)) as (_ & _ & _ & -> & _). exact Hu. }
+  exists s'. cbn [rfold]. rewrite E1. exact E'.
+Qed.
+
+(* what [applyDeferredSets] does when the lists hold vars only *)
+Lemma applyDeferredSets_inv s s' :
+  Forall (fun w => isVar s w = true) (setRemoved s ++ setDuring s) ->
+  applyDeferredSets s = Ok s' ->
+  setDuring s' = [] /\ setRemoved s' = [] /\
+    (forall v x, v ∈ setRemoved s ++ setDuring s -> pending (nd s v) = Some x ->
+                 recomputedAt (nd s v) <> stabNum s -> value (nd s' v) = x /\ pending (nd s' v) = None) /\
+    (forall v x, value (nd s v) = x -> pending (nd s v) = None -> value (nd s' v) = x /\ pending (nd s' v) = None) /\
+    (* and nothing else happens: *)
+    status s' = status s /\ stabNum s' = stabNum s /\ log s' = log s /\ handlers s' = handlers s /\
+    obs s' = obs s /\ binds s' = binds s /\ next s' = next s /\ reg s' = reg s /\
+    (forall n, vps (nd s n) (nd s' n)) /\ (forall n, isVar s' n = isVar s n) /\
+    (forall n, inHeap s n = true -> inHeap s' n = true).
+Proof.
+  intros Hv. rewrite applyDeferredSets_unfold. intros H. apply rbind_ok in H as (s1 & E1 & [= <-]).
+  destruct (dsteps_inv _ s s1 Hv E1) as (D1 & Q).
+  split; [reflexivity|]. split; [reflexivity|].
+  split; [intros v x Hin Hp Hr; exact (proj2 (Q v x) Hin Hp Hr)|].
+  split; [intros v x Hx Hp; exact (proj1 (Q v x) (conj Hx Hp))|].
+  destruct (dfr_state _ _ D1) as (B1 & B2 & B3 & B4 & _ & _ & B7 & B8 & _ & _ & _ & B12 & _ & B14).
+  destruct D1 as (_ & D2 & D3 & D4).
+  do 8 (split; [assumption|]). split; [exact D2|]. split; [exact D3|exact D4].
+Qed.
+
+Lemma C12_deferred_applied_at_end s :
+  Forall (fun w => isVar s w = true) (setRemoved s ++ setDuring s) ->
+  Forall (fun w => -1 <= height (nd s w)) (setRemoved s ++ setDuring s) ->
+  exists s', applyDeferredSets s = Ok s' /\ setDuring s' = [] /\ setRemoved s' = [] /\
+    (forall v x, v ∈ setRemoved s ++ setDuring s -> pending (nd s v) = Some x ->
+                 recomputedAt (nd s v) <> stabNum s -> value (nd s' v) = x /\ pending (nd s' v) = None) /\
+    (* and nothing else happens: *)
+    status s' = status s /\ stabNum s' = stabNum s /\ log s' = log s /\ handlers s' = handlers s /\
+    obs s' = obs s /\ binds s' = binds s /\ next s' = next s /\ reg s' = reg s /\
+    (forall n, vps (nd s n) (nd s' n)) /\ (forall n, isVar s' n = isVar s n) /\
+    (forall n, inHeap s n = true -> inHeap s' n = true).
+Proof.
+  intros Hv Hh. destruct (dsteps_total _ s Hv Hh) as (s1 & E1).
+  exists (s1 <| setDuring := [] |> <| setRemoved := [] |>).
+  assert (E : applyDeferredSets s = Ok (s1 <| setDuring := [] |> <| setRemoved := [] |>))
+    by (rewrite applyDeferredSets_unfold, E1; reflexivity).
+  split; [exact E|]. destruct (applyDeferredSets_inv _ _ Hv E) as (A1 & A2 & A3 & _ & A5).
+  split; [exact A1|]. split; [exact A2|]. split; [exact A3|exact A5].
+Qed.
+
+(** * 4. C13: update handlers *)
+From Coq Require Import Sorted.
+
+(** C13.1: the handler set is kept strictly sorted, hence duplicate-free *)
+Definition ssorted (l : list nid) : Prop := StronglySorted Nat.lt l.
+
+Lemma insert_sorted_elem x n l : x ∈ insert_sorted n l <-> x = n \/ x ∈ l.
+Proof.
+  induction l as [|y l IH]; cbn [insert_sorted].
+  - rewrite elem_of_list_singleton. split; [auto|intros [G|G]; [exact G|inversion G]].
+  - destruct (Nat.ltb_spec n y) as [Hlt|Hge]; [rewrite elem_of_cons; reflexivity|].
+    destruct (Nat.eqb_spec n y) as [->|Hne].
+    + split; [auto|]. intros [->|G]; [left|exact G].
+    + rewrite !elem_of_cons, IH. tauto.
+Qed.
+
+Lemma insert_sorted_ssorted n l : ssorted l -> ssorted (insert_sorted n l).
+Proof.
+  unfold ssorted. induction l as [|y l IH]; intros Hs; cbn [insert_sorted].
+  - repeat constructor.
+  - apply StronglySorted_inv in Hs as [Hs Hy].
+    destruct (Nat.ltb_spec n y).
+    + constructor; [constructor; assumption|]. constructor; [assumption|].
+      eapply Forall_impl; [|exact Hy]. intros a Ha. cbv beta in *. unfold Nat.lt in *. lia.
+    + destruct (Nat.eqb_spec n y) as [->|Hne]; [constructor; assumption|].
+      constructor; [apply IH, Hs|]. apply Forall_forall. intros a Ha%elem_of_list_In%insert_sorted_elem.
+      destruct Ha as [->|Ha]; [unfold Nat.lt; lia|].
+      rewrite Forall_forall in Hy. apply Hy, elem_of_list_In, Ha.
+Qed.
+
+Lemma rm_ssorted n l : ssorted l -> ssorted (rm n l).
+Proof.
+  unfold ssorted, rm. induction l as [|y l IH]; intros Hs; [constructor|].
+  apply StronglySorted_inv in Hs as [Hs Hy]. rewrite filter_cons.
+  destruct (decide (y <> n)); [|apply IH, Hs].
+  constructor; [apply IH, Hs|]. apply Forall_forall. intros a Ha%elem_of_list_In%elem_of_list_filter.
+  rewrite Forall_forall in Hy. apply Hy, elem_of_list_In, Ha.
+Qed.
+
+Lemma ssorted_NoDup l : ssorted l -> NoDup l.
+Proof.
+  unfold ssorted. induction l as [|y l IH]; intros Hs; [constructor|].
+  apply StronglySorted_inv in Hs as [Hs Hy]. constructor; [|apply IH, Hs].
+  intros Hin%elem_of_list_In. rewrite Forall_forall in Hy. apply Hy in Hin. unfold Nat.lt in Hin. lia.
+Qed.
+
+Lemma C13_handlers_nodup_sorted k s :
+  ssorted (handlers s) ->
+  ssorted (handlers (insert_handler k s)) /\ NoDup (handlers (insert_handler k s)) /\
+  forall x, x ∈ handlers (insert_handler k s) <-> x = k \/ x ∈ handlers s.
+Proof.
+  intros Hs. pose proof (insert_sorted_ssorted k _ Hs) as H1.
+  split; [exact H1|]. split; [apply ssorted_NoDup, H1|]. intros x. apply insert_sorted_elem.
+Qed.
+
+(* and it stays sorted through everything a pass does *)
+Definition hsR (s s' : state) : Prop := ssorted (handlers s) -> ssorted (handlers s').
+
+Lemma hsR_hyps : frame_hyps hsR (fun h w => ssorted h -> ssorted w) (fun _ => True).
+Proof.
+  split; try (intros; exact (fun H => H)).
+  - intros h k. apply insert_sorted_ssorted.
+  - intros h n. apply rm_ssorted.
+  - intros s1 s2 s3 H1 H2 H. apply H2, H1, H.
+  - intros s w H. exact H.
+Qed.
+
+Lemma C13_handlers_sorted_passLoop fuel p s always s' e at_ always' :
+  passLoop fuel p s always = Ok (s', e, at_, always') -> ssorted (handlers s) -> ssorted (handlers s').
+Proof. eapply (fr_passLoop hsR); [exact hsR_hyps|apply planv_True]. Qed.
+
+Lemma C13_handlers_sorted_parLoop fuel p s always s' e always' :
+  parLoop fuel p s always = Ok (s', e, always') -> ssorted (handlers s) -> ssorted (handlers s').
+Proof. eapply (fr_parLoop hsR); [exact hsR_hyps|apply planv_True]. Qed.
+
+(** which vars can be on the deferred lists after a pass: those that were, and those the plan writes *)
+Definition wvR (okv : nid -> Prop) (s s' : state) : Prop :=
+  forall v, v ∈ setDuring s' ++ setRemoved s' -> v ∈ setDuring s ++ setRemoved s \/ okv v.
+
+Lemma wvR_hyps okv : frame_hyps (wvR okv) (fun _ _ => True) okv.
+Proof.
+  split; try (intros; exact I); try (intros; intros v Hv; left; exact Hv).
+  - intros s1 s2 s3 H1 H2 v Hv. destruct (H2 v Hv) as [H|H]; [apply H1, H|right; exact H].
+  - intros s v Hokv u Hu. cbn in Hu. rewrite elem_of_app, insert_sorted_elem in Hu.
+    rewrite elem_of_app. destruct Hu as [[->|Hu]|Hu]; auto.
+  - intros s n u Hu. left. cbn in Hu. rewrite elem_of_app in *. unfold rm in Hu.
+    rewrite elem_of_list_filter in Hu. destruct Hu as [[_ Hu]|Hu]; [auto|].
+    destruct (bool_decide (n ∈ setDuring s)) eqn:E; [|auto].
+    apply bool_decide_eq_true in E. apply elem_of_app in Hu as [Hu|Hu%elem_of_list_singleton]; [auto|subst; auto].
+Qed.
+
+Lemma plan_ok_planv s p : plan_ok s p = true -> planv (fun v => isVar s v = true) p.
+Proof.
+  intros Hp n w. apply Forall_forall. intros a Ha%elem_of_list_In.
+  unfold actions_of in Ha. apply elem_of_list_omap in Ha as ([[m w'] a'] & Hin & Hf).
+  unfold plan_ok in Hp. pose proof (forallb_elem _ _ _ Hp Hin) as Hx. cbv beta iota in Hx, Hf.
+  destruct (_ && _); [|discriminate]. injection Hf as <-. destruct a'; cbn; auto.
+Qed.
+
+(* after a pass loop the deferred lists hold vars only *)
+Lemma pass_deferred_are_vars (s0 sL : state) p :
+  ids_below s0 -> plan_ok s0 p = true ->
+  Forall (fun v => isVar s0 v = true) (setDuring s0 ++ setRemoved s0) ->
+  pframe s0 sL -> wvR (fun v => isVar s0 v = true) s0 sL ->
+  Forall (fun v => isVar sL v = true) (setRemoved sL ++ setDuring sL).
+Proof.
+  intros Hids Hp Hv0 Hpf Hwv. apply Forall_forall. intros v Hv%elem_of_list_In.
+  assert (Hv' : v ∈ setDuring sL ++ setRemoved sL) by (rewrite elem_of_app in *; tauto).
+  assert (H0 : isVar s0 v = true).
+  { destruct (Hwv v Hv') as [H|H]; [|exact H]. rewrite Forall_forall in Hv0. apply Hv0, elem_of_list_In, H. }
+  destruct Hpf as (_ & _ & _ & _ & _ & _ & Hk & _). destruct (Hk Hids) as [_ Hk'].
+  destruct (Hk' v (isVar_some _ _ H0)) as [Ek _].
+  apply isVar_spec in H0 as [k H0]. apply isVar_spec. exists k. rewrite Ek. exact H0.
+Qed.
+
+(** C13.2 / C13.3: the shape of the log of a pass *)
+Definition hev (s : state) (k : nid) : event :=
+  match obs s !! k with Some n => EvObsUpd k (valueOf s n) | None => EvUpd k end.
+
+Lemma valueOf__ext fuel : forall s s' n,
+  (forall m, nkind (nd s' m) = nkind (nd s m) /\ decl (nd s' m) = decl (nd s m) /\ value (nd s' m) = value (nd s m)) ->
+  valueOf_ fuel s' n = valueOf_ fuel s n.
+Proof.
+  induction fuel as [|fuel IH]; intros s s' n H; [reflexivity|]. cbn [valueOf_].
+  destruct (H n) as (-> & -> & ->). destruct (nkind (nd s n)); try reflexivity.
+  destruct (decl (nd s n)); [reflexivity|]. apply IH, H.
+Qed.
+
+Lemma valueOf_ext s s' n :
+  (forall m, nkind (nd s' m) = nkind (nd s m) /\ decl (nd s' m) = decl (nd s m) /\ value (nd s' m) = value (nd s m)) ->
+  valueOf s' n = valueOf s n.
+Proof. apply valueOf__ext. Qed.
+
+Lemma hev_ext s s' k :
+  obs s' = obs s ->
+  (forall m, nkind (nd s' m) = nkind (nd s m) /\ decl (nd s' m) = decl (nd s m) /\ value (nd s' m) = value (nd s m)) ->
+  hev s' k = hev s k.
+Proof. intros Ho Hn. unfold hev. rewrite Ho. destruct (obs s !! k); [|reflexivity]. rewrite (valueOf_ext s s'); auto. Qed.
+
+Lemma runUpdateHandlers_eq s :
+  runUpdateHandlers s = s <| status := 2 |> <| log := rev (map (hev s) (handlers s)) ++ log s |> <| handlers := [] |>.
+Proof.
+  unfold runUpdateHandlers.
+  assert (G : forall l t, obs t = obs s -> nodes t = nodes s ->
+     foldl (fun s k => match obs s !! k with
+                       | Some n => emit (EvObsUpd k (valueOf s n)) s
+                       | None => emit (EvUpd k) s
+                       end) t l = t <| log := rev (map (hev s) l) ++ log t |>).
+  { induction l as [|k l IH]; intros t Ho Hn; cbn [foldl map rev].
+    - destruct t; reflexivity.
+    - assert (Ek : (match obs t !! k with
+                    | Some n => emit (EvObsUpd k (valueOf t n)) t
+                    | None => emit (EvUpd k) t
+                    end) = emit (hev s k) t).
+      { unfold hev. rewrite Ho. destruct (obs s !! k); [|reflexivity].
+        rewrite (valueOf_ext s t); [reflexivity|]. intros m. unfold nd. rewrite Hn. auto. }
+      rewrite Ek, IH by (cbn; assumption). unfold emit. rewrite <- app_assoc. destruct t; reflexivity. }
+  rewrite G by reflexivity. destruct s; reflexivity.
+Qed.
+
+Definition requeueAlways (always : list nid) (s : state) : res state :=
+  rfold (fun s n => if height (nd s n) =? unset then Ok s else heapAddIfNotPresent s n) always s.
+
+Definition recoverPanic (s : state) (e : option err) (at_ : nid) : res state :=
+  match e with
+  | Some (EPanic _) =>
+    let s := upd s at_ (set recomputedAt (fun _ => 0)) in
+    s <-! heapAddIfNotPresent s at_;
+    Ok (errorHandlers s at_)
+  | _ => Ok s
+  end.
+
+Lemma stabilize_unfold p c s :
+  stabilize p c s =
+  if negb (status s =? 0) then fail s EAlreadyStabilizing else
+  let s0 := emit EvPassStart (s <| status := 1 |>) in
+  '(s1, e, at_, always) <-!
+     (if c && (0 <? Heap.cnt (heap s0)) then Ok (s0, Some ECancelled, 0%nat, [])
+      else passLoop (passFuel s0) p s0 []);
+  s2 <-! requeueAlways always s1;
+  s3 <-! recoverPanic s2 e at_;
+  s4 <-! stabilizeEnd s3 e;
+  Ok (s4, e).
+Proof. reflexivity. Qed.
+
+Lemma requeueAlways_heapOnly always : forall s s', requeueAlways always s = Ok s' -> heapOnly s s'.
+Proof.
+  unfold requeueAlways. induction always as [|n l IH]; intros s s' H; cbn [rfold] in H.
+  - injection H as <-. apply heapOnly_refl.
+  - apply rbind_ok in H as (s1 & H1 & H%IH). eapply heapOnly_trans; [|exact H].
+    destruct (_ =? unset); [injection H1 as <-; apply heapOnly_refl|eapply heapAddIfNotPresent_heapOnly, H1].
+Qed.
+
+Lemma requeueAlways_inHeap always : forall s s' m, requeueAlways always s = Ok s' -> inHeap s m = true -> inHeap s' m = true.
+Proof.
+  unfold requeueAlways. induction always as [|n l IH]; intros s s' m H Hm; cbn [rfold] in H.
+  - injection H as <-. exact Hm.
+  - apply rbind_ok in H as (s1 & H1 & H). eapply IH; [exact H|].
+    destruct (_ =? unset); [injection H1 as <-; exact Hm|].
+    rewrite (heapAddIfNotPresent_inHeap _ _ _ m H1), Hm. apply orb_true_r.
+Qed.
+
+Lemma errorHandlers_eq s n : exists L, errorHandlers s n = s <| log := L ++ log s |> /\ Forall passEv L.
+Proof.
+  unfold errorHandlers, emit. destruct (nkind (nd s n)) eqn:E;
+    try (exists [EvErrH n]; split; [reflexivity|repeat constructor]).
+  exists [EvErrH n; EvErrH (b_main (bd s b))]. split; [destruct s; reflexivity|repeat constructor].
+Qed.
+
+(* the recover branch: at most the stamp of [at_], the heap, and error-handler events *)
+Lemma recoverPanic_spec s e at_ s' :
+  recoverPanic s e at_ = Ok s' ->
+  exists L, log s' = L ++ log s /\ Forall passEv L /\
+    obs s' = obs s /\ handlers s' = handlers s /\ status s' = status s /\ stabNum s' = stabNum s /\
+    setDuring s' = setDuring s /\ setRemoved s' = setRemoved s /\
+    (forall m, exists r, nd s' m = nd s m <| recomputedAt := r |>) /\
+    (forall m, isVar s' m = isVar s m) /\
+    (forall m, inHeap s m = true -> inHeap s' m = true) /\
+    (forall k, e = Some (EPanic k) -> recomputedAt (nd s' at_) = 0 /\ inHeap s' at_ = true).
+Proof.
+  unfold recoverPanic. intros H.
+  assert (Hid : forall m, exists r, nd s m = nd s m <| recomputedAt := r |>).
+  { intros m. exists (recomputedAt (nd s m)). destruct (nd s m); reflexivity. }
+  destruct e as [[]|]; try (injection H as <-; exists []; repeat split; auto; discriminate).
+  apply rbind_ok in H as (s1 & H1 & [= <-]).
+  destruct (errorHandlers_eq s1 at_) as (L & -> & HL).
+  pose proof (heapAddIfNotPresent_heapOnly _ _ _ H1) as Ho.
+  exists L. split; [destruct Ho as [w ->]; reflexivity|]. split; [exact HL|].
+  do 6 (split; [destruct Ho as [w ->]; reflexivity|]).
+  split; [|split; [|split]].
+  - intros m. change (exists r, nd s1 m = nd s m <| recomputedAt := r |>).
+    rewrite (heapOnly_nd _ _ m Ho), nd_upd_if. destruct (decide (m = at_)) as [->|]; [|apply Hid].
+    destruct (nodes s !! at_) eqn:E; [eexists; reflexivity|]. unfold nd. rewrite E. exists 0. reflexivity.
+  - intros m. change (isVar s1 m = isVar s m). rewrite (isVar_heapOnly _ _ m Ho).
+    apply isVar_upd. intros []; reflexivity.
+  - intros m Hm. change (inHeap s1 m = true).
+    rewrite (heapAddIfNotPresent_inHeap _ _ _ m H1). apply orb_true_iff. right. exact Hm.
+  - intros k _. split.
+    + change (recomputedAt (nd s1 at_) = 0).
+      rewrite (heapOnly_nd _ _ at_ Ho), nd_upd_if, decide_True by reflexivity.
+      destruct (nodes s !! at_); [destruct (nd s at_)|]; reflexivity.
+    + change (inHeap s1 at_ = true).
+      rewrite (heapAddIfNotPresent_inHeap _ _ _ at_ H1), bool_decide_eq_true_2 by reflexivity. reflexivity.
+Qed.
+
+Lemma hev_emit e s k : hev (emit e s) k = hev s k.
+Proof. apply hev_ext; [reflexivity|]. intros m. auto. Qed.
+
+(* the epilogue of a pass, when the deferred lists hold vars only *)
+Lemma stabilizeEnd_spec s e s' :
+  Forall (fun w => isVar s w = true) (setRemoved s ++ setDuring s) ->
+  stabilizeEnd s e = Ok s' ->
+  status s' = 0 /\ stabNum s' = stabNum s + 1 /\ handlers s' = [] /\ setDuring s' = [] /\ setRemoved s' = [] /\
+  obs s' = obs s /\ binds s' = binds s /\ next s' = next s /\ reg s' = reg s /\
+  log s' = rev (map (hev s) (handlers s)) ++ EvPassEnd (classify e) :: log s /\
+  (forall n, vps (nd s n) (nd s' n)) /\ (forall n, isVar s' n = isVar s n) /\
+  (forall n, inHeap s n = true -> inHeap s' n = true) /\
+  (forall v x, v ∈ setRemoved s ++ setDuring s -> pending (nd s v) = Some x ->
+               recomputedAt (nd s v) <> stabNum s + 1 -> value (nd s' v) = x /\ pending (nd s' v) = None) /\
+  (forall v x, value (nd s v) = x -> pending (nd s v) = None -> value (nd s' v) = x /\ pending (nd s' v) = None).
+Proof.
+  intros Hv. unfold stabilizeEnd. rewrite runUpdateHandlers_eq. intros H.
+  apply rbind_ok in H as (s1 & H1 & [= <-]).
+  apply applyDeferredSets_inv in H1; [|exact Hv].
+  destruct H1 as (A1 & A2 & A3 & A4 & A5 & A6 & A7 & A8 & A9 & A10 & A11 & A12 & A13 & A14 & A15).
+  split; [reflexivity|]. split; [exact A6|]. split; [exact A8|]. split; [exact A1|]. split; [exact A2|].
+  split; [exact A9|]. split; [exact A10|]. split; [exact A11|]. split; [exact A12|].
+  split.
+  { change (log s1 = rev (map (hev s) (handlers s)) ++ EvPassEnd (classify e) :: log s). rewrite A7. cbn.
+    f_equal. f_equal. apply map_ext. intros k. apply hev_emit. }
+  split; [exact A13|]. split; [exact A14|]. split; [exact A15|]. split; [exact A3|exact A4].
+Qed.
+
+Lemma stabilizeEnd_status s e s' : stabilizeEnd s e = Ok s' -> status s' = 0.
+Proof. unfold stabilizeEnd. intros H. apply rbind_ok in H as (s1 & _ & [= <-]). reflexivity. Qed.
+
+Definition passStart (s : state) : state := emit EvPassStart (s <| status := 1 |>).
+
+Definition passResult (p : plan) (c : bool) (s : state) : res (state * option err * nid * list nid) :=
+  let s0 := passStart s in
+  if c && (0 <? Heap.cnt (heap s0)) then Ok (s0, Some ECancelled, 0%nat, [])
+  else passLoop (passFuel s0) p s0 [].
+
+Lemma stabilize_decompose p c s s' e :
+  status s = 0 -> stabilize p c s = Ok (s', e) ->
+  exists sL at_ always s2 s3,
+    passResult p c s = Ok (sL, e, at_, always) /\
+    requeueAlways always sL = Ok s2 /\ recoverPanic s2 e at_ = Ok s3 /\ stabilizeEnd s3 e = Ok s'.
+Proof.
+  intros Hst. rewrite stabilize_unfold, Hst. change (negb (0 =? 0)) with false. cbv iota zeta.
+  intros H. apply rbind_ok in H as ([[[sL e1] at_] always] & H1 & H).
+  apply rbind_ok in H as (s2 & H2 & H). apply rbind_ok in H as (s3 & H3 & H).
+  apply rbind_ok in H as (s4 & H4 & [= <- <-]). exists sL, at_, always, s2, s3. auto.
+Qed.
+
+Lemma passResult_frames p c s sL e at_ always :
+  passResult p c s = Ok (sL, e, at_, always) ->
+  pframe (passStart s) sL /\
+  (plan_ok s p = true -> wvR (fun v => isVar s v = true) (passStart s) sL) /\
+  (ssorted (handlers s) -> ssorted (handlers sL)).
+Proof.
+  unfold passResult. cbv zeta. destruct (_ && _).
+  - intros [= <- <- <- <-]. split; [apply pframe_refl|]. split; [intros _ v Hv; left; exact Hv|auto].
+  - intros H. split; [eapply pf_passLoop, H|]. split.
+    + intros Hp. eapply (fr_passLoop (wvR _)); [apply wvR_hyps| |exact H]. apply plan_ok_planv, Hp.
+    + apply (C13_handlers_sorted_passLoop _ _ _ _ _ _ _ _ H).
+Qed.
+
+Definition isHandlerEv (e : event) : Prop := match e with EvUpd _ | EvObsUpd _ _ => True | _ => False end.
+
+Lemma hev_isHandlerEv s k : isHandlerEv (hev s k).
+Proof. unfold hev. destruct (obs s !! k); exact I. Qed.
+
+(** C13.2 (+ C13.3): one start bracket, the computations of the pass, one end bracket carrying the
+    error class, then exactly one handler event per key of the final handler set, in key order,
+    an observer's event carrying the value of the observed node when the pass loop ended *)
+Lemma C13_bracket_and_order p c s s' e :
+  status s = 0 -> ids_below s -> plan_ok s p = true ->
+  Forall (fun v => isVar s v = true) (setDuring s ++ setRemoved s) ->
+  stabilize p c s = Ok (s', e) ->
+  exists L sL at_ always,
+    passResult p c s = Ok (sL, e, at_, always) /\
+    rev (log s') = rev (log s) ++ [EvPassStart] ++ L ++ [EvPassEnd (classify e)] ++ map (hev sL) (handlers sL) /\
+    Forall passEv L /\ obs sL = obs s /\
+    (ssorted (handlers s) -> ssorted (handlers sL) /\ NoDup (handlers sL)).
+Proof.
+  intros Hst Hids Hp Hv0 H.
+  destruct (stabilize_decompose _ _ _ _ _ Hst H) as (sL & at_ & always & s2 & s3 & H1 & H2 & H3 & H4).
+  destruct (passResult_frames _ _ _ _ _ _ _ H1) as (Hpf & Hwv & Hss). specialize (Hwv Hp).
+  assert (HvL : Forall (fun v => isVar sL v = true) (setRemoved sL ++ setDuring sL)).
+  { eapply (pass_deferred_are_vars (passStart s) sL p); [exact Hids|exact Hp|exact Hv0|exact Hpf|exact Hwv]. }
+  pose proof (requeueAlways_heapOnly _ _ _ H2) as Ho2.
+  destruct (recoverPanic_spec _ _ _ _ H3) as (LE & E3 & HLE & O3 & Hh3 & _ & _ & SD3 & SR3 & N3 & V3 & _).
+  assert (Hv3 : Forall (fun v => isVar s3 v = true) (setRemoved s3 ++ setDuring s3)).
+  { rewrite SD3, SR3. destruct Ho2 as [w ->]. eapply Forall_impl; [|exact HvL]. intros v Hv. cbv beta in *.
+    rewrite V3. exact Hv. }
+  destruct (stabilizeEnd_spec _ _ _ Hv3 H4) as (_ & _ & _ & _ & _ & _ & _ & _ & _ & Elog & _).
+  destruct Hpf as (Ob & _ & _ & _ & _ & _ & _ & L1 & EL1 & HL1).
+  exists (rev L1 ++ rev LE), sL, at_, always. split; [exact H1|]. split; [|split; [|split]].
+  - rewrite Elog, E3. destruct Ho2 as [w ->]. cbn [log set]. change (log (sL <| heap := w |>)) with (log sL).
+    rewrite EL1. change (log (passStart s)) with (EvPassStart :: log s).
+    assert (Eh : map (hev s3) (handlers s3) = map (hev sL) (handlers sL)).
+    { rewrite Hh3. apply map_ext. intros k. apply hev_ext; [exact O3|]. intros m.
+      destruct (N3 m) as [r ->]. change (nd (sL <| heap := w |>) m) with (nd sL m). destruct (nd sL m); auto. }
+    rewrite Eh. rewrite !rev_app_distr, rev_involutive. cbn [rev app]. rewrite !rev_app_distr. cbn [rev app].
+    rewrite <- !app_assoc. cbn [app]. reflexivity.
+  - apply Forall_app. split; apply Forall_rev; assumption.
+  - exact Ob.
+  - intros Hs. pose proof (Hss Hs) as Hs'. split; [exact Hs'|apply ssorted_NoDup, Hs'].
+Qed.
+
+Lemma C13_observer_value_is_final sL o :
+  forall n, obs sL !! o = Some n -> hev sL o = EvObsUpd o (valueOf sL n).
+Proof. intros n Hn. unfold hev. rewrite Hn. reflexivity. Qed.
+
+(** C13.4: a node that changed, and each of its observers, is filed for its handler;
+    tearing a node down withdraws its key *)
+Lemma foldl_insert_sorted_elem l : forall h x,
+  x ∈ foldl (fun h o => insert_sorted o h) h l <-> x ∈ h \/ x ∈ l.
+Proof.
+  induction l as [|o l IH]; intros h x; cbn [foldl].
+  - split; [auto|intros [H|H]; [exact H|inversion H]].
+  - rewrite IH, insert_sorted_elem, elem_of_cons. tauto.
+Qed.
+
+Lemma C13_changed_node_is_queued_for_handler s n s' e imm :
+  successTail s n = Ok (s', e, imm) ->
+  n ∈ handlers s' /\ (forall o, o ∈ observers (nd s' n) -> o ∈ handlers s') /\
+  (forall k, k ∈ handlers s -> k ∈ handlers s') /\
+  (forall k, k ∈ handlers s' -> k ∈ handlers s \/ k = n \/ k ∈ observers (nd s n)).
+Proof.
+  unfold successTail. intros H.
+  apply rbind_ok in H as ([s1 held] & H1%childrenLoop_heapOnly & H).
+  apply rbind_ok in H as ([s2 imm2] & H2 & [= <- <- <-]).
+  assert (Ho2 : heapOnly s1 s2).
+  { destruct held as [h|]; [|injection H2 as <- <-; apply heapOnly_refl].
+    destruct (canRecomputeImmediately _ _ _); [injection H2 as <- <-; apply heapOnly_refl|].
+    apply rbind_ok in H2 as (s3 & H3%heapAdd_heapOnly & [= <- <-]). exact H3. }
+  pose proof (heapOnly_trans _ _ _ H1 Ho2) as Ho. clear H1 Ho2 H2.
+  rewrite insert_handlers_eq.
+  assert (Eh : handlers s2 = insert_sorted n (handlers s)) by (destruct Ho as [w ->]; reflexivity).
+  assert (Eo : observers (nd s2 n) = observers (nd s n)).
+  { rewrite (heapOnly_nd _ _ n Ho). unfold insert_handler.
+    change (observers (nd (upd s n (set changedAt (fun _ => stabNum s))) n) = observers (nd s n)).
+    apply (nd_upd_keep observers). intros []; reflexivity. }
+  change (nd (s2 <| handlers := _ |>) n) with (nd s2 n).
+  change (handlers (s2 <| handlers := ?h |>)) with h.
+  split; [|split; [|split]].
+  - apply foldl_insert_sorted_elem. left. rewrite Eh. apply insert_sorted_elem. auto.
+  - intros o Ho'. apply foldl_insert_sorted_elem. right. exact Ho'.
+  - intros k Hk. apply foldl_insert_sorted_elem. left. rewrite Eh. apply insert_sorted_elem. auto.
+  - intros k Hk. apply foldl_insert_sorted_elem in Hk. rewrite Eh, insert_sorted_elem, Eo in Hk. tauto.
+Qed.
+
+Lemma C13_zeroNode_withdraws s n s' :
+  zeroNode s n = Ok s' -> handlers s' = rm n (handlers s) /\ n ∉ handlers s'.
+Proof.
+  unfold zeroNode. intros H. apply rbind_ok in H as (s1 & H1 & [= <-]).
+  assert (E : handlers s1 = handlers s).
+  { destruct (inHeap s n); [|injection H1 as <-; reflexivity].
+    unfold heapRemove in H1. apply rbind_ok in H1 as (w & _ & [= <-]). reflexivity. }
+  assert (E' : handlers (upd (s1 <| numNodes := numNodes s1 - 1 |> <| handlers := rm n (handlers s1) |>
+     <| setRemoved := if bool_decide (n ∈ setDuring s1) then setRemoved s1 ++ [n] else setRemoved s1 |>
+     <| setDuring := rm n (setDuring s1) |>) n
+     (fun x => x <| setAt := 0 |> <| changedAt := 0 |> <| recomputedAt := 0 |>
+                          <| valid := true |> <| parents := [] |> <| children := [] |>
+                          <| observers := [] |> <| height := unset |> <| hAdj := unset |>)) = rm n (handlers s))
+    by (rewrite <- E; reflexivity).
+  split; [exact E'|]. rewrite E'. unfold rm. rewrite elem_of_list_filter. tauto.
+Qed.
+
+(** the same for ParallelStabilize *)
+Definition requeueAlwaysPar (always : list nid) (s : state) : res state :=
+  rfold (fun s n => if (height (nd s n) =? unset) || inHeap s n then Ok s else heapAdd s n) always s.
+
+Lemma requeueAlwaysPar_heapOnly always : forall s s', requeueAlwaysPar always s = Ok s' -> heapOnly s s'.
+Proof.
+  unfold requeueAlwaysPar. induction always as [|n l IH]; intros s s' H; cbn [rfold] in H.
+  - injection H as <-. apply heapOnly_refl.
+  - apply rbind_ok in H as (s1 & H1 & H%IH). eapply heapOnly_trans; [|exact H].
+    destruct (_ || _); [injection H1 as <-; apply heapOnly_refl|eapply heapAdd_heapOnly, H1].
+Qed.
+
+Lemma parStabilize_decompose p s s' e :
+  status s = 0 -> parStabilize p s = Ok (s', e) ->
+  exists sL always s2,
+    parLoop (passFuel (passStart s)) p (passStart s) [] = Ok (sL, e, always) /\
+    requeueAlwaysPar always sL = Ok s2 /\ stabilizeEnd s2 e = Ok s'.
+Proof.
+  intros Hst. unfold parStabilize. rewrite Hst. change (negb (0 =? 0)) with false. cbv iota zeta.
+  intros H. apply rbind_ok in H as ([[sL e1] always] & H1 & H).
+  apply rbind_ok in H as (s2 & H2 & H). apply rbind_ok in H as (s4 & H4 & [= <- <-]).
+  exists sL, always, s2. auto.
+Qed.
+
+Lemma C13_bracket_and_order_par p s s' e :
+  status s = 0 -> ids_below s -> plan_ok s p = true ->
+  Forall (fun v => isVar s v = true) (setDuring s ++ setRemoved s) ->
+  parStabilize p s = Ok (s', e) ->
+  exists L sL always,
+    parLoop (passFuel (passStart s)) p (passStart s) [] = Ok (sL, e, always) /\
+    rev (log s') = rev (log s) ++ [EvPassStart] ++ L ++ [EvPassEnd (classify e)] ++ map (hev sL) (handlers sL) /\
+    Forall passEv L /\ obs sL = obs s /\
+    (ssorted (handlers s) -> ssorted (handlers sL) /\ NoDup (handlers sL)).
+Proof.
+  intros Hst Hids Hp Hv0 H.
+  destruct (parStabilize_decompose _ _ _ _ Hst H) as (sL & always & s2 & H1 & H2 & H4).
+  pose proof (pf_parLoop _ _ _ _ _ _ _ H1) as Hpf.
+  assert (Hwv : wvR (fun v => isVar s v = true) (passStart s) sL).
+  { eapply (fr_parLoop (wvR _)); [apply wvR_hyps| |exact H1]. apply plan_ok_planv, Hp. }
+  assert (HvL : Forall (fun v => isVar sL v = true) (setRemoved sL ++ setDuring sL)).
+  { eapply (pass_deferred_are_vars (passStart s) sL p); [exact Hids|exact Hp|exact Hv0|exact Hpf|exact Hwv]. }
+  pose proof (requeueAlwaysPar_heapOnly _ _ _ H2) as [w ->].
+  assert (HvL' : Forall (fun v => isVar (sL <| heap := w |>) v = true)
+                   (setRemoved (sL <| heap := w |>) ++ setDuring (sL <| heap := w |>))) by exact HvL.
+  destruct (stabilizeEnd_spec _ _ _ HvL' H4) as (_ & _ & _ & _ & _ & _ & _ & _ & _ & Elog & _).
+  destruct Hpf as (Ob & _ & _ & _ & _ & _ & _ & L1 & EL1 & HL1).
+  exists (rev L1), sL, always. split; [exact H1|]. split; [|split; [|split]].
+  - rewrite Elog. change (log (sL <| heap := w |>)) with (log sL).
+    change (handlers (sL <| heap := w |>)) with (handlers sL).
+    rewrite EL1. change (log (passStart s)) with (EvPassStart :: log s).
+    assert (Eh : map (hev (sL <| heap := w |>)) (handlers sL) = map (hev sL) (handlers sL)).
+    { apply map_ext. intros k. apply hev_ext; [reflexivity|]. intros m. auto. }
+    rewrite Eh. rewrite !rev_app_distr, rev_involutive. cbn [rev app]. rewrite !rev_app_distr. cbn [rev app].
+    rewrite <- !app_assoc. cbn [app]. reflexivity.
+  - apply Forall_rev. assumption.
+  - exact Ob.
+  - intros Hs. pose proof (C13_handlers_sorted_parLoop _ _ _ _ _ _ _ H1 Hs) as Hs'.
+    split; [exact Hs'|apply ssorted_NoDup, Hs'].
+Qed.
+
+(** * 5. C07: errors, panics, cancellation *)
+
+(** C07.1: the stabilizing mark is released however the pass ends; a pass cannot start while
+    another is marked as running *)
+Lemma C07_status_released p c s s' e : status s = 0 -> stabilize p c s = Ok (s', e) -> status s' = 0.
+Proof.
+  intros Hst H. destruct (stabilize_decompose _ _ _ _ _ Hst H) as (? & ? & ? & ? & s3 & _ & _ & _ & H4).
+  eapply stabilizeEnd_status, H4.
+Qed.
+
+Lemma C07_already_stabilizing p c s : status s <> 0 -> stabilize p c s = fail s EAlreadyStabilizing.
+Proof.
+  intros Hst. rewrite stabilize_unfold. destruct (Z.eqb_spec (status s) 0); [contradiction|reflexivity].
+Qed.
+
+Lemma C07_status_released_par p s s' e : status s = 0 -> parStabilize p s = Ok (s', e) -> status s' = 0.
+Proof.
+  intros Hst H. destruct (parStabilize_decompose _ _ _ _ Hst H) as (? & ? & s2 & _ & _ & H4).
+  eapply stabilizeEnd_status, H4.
+Qed.
+
+Lemma C07_already_stabilizing_par p s : status s <> 0 -> parStabilize p s = fail s EAlreadyStabilizing.
+Proof.
+  intros Hst. unfold parStabilize. destruct (Z.eqb_spec (status s) 0); [contradiction|reflexivity].
+Qed.
+
+(* in every outcome: Ok with status 0, or the EAlreadyStabilizing rejection with the state untouched *)
+Lemma C07_status_released_any p c s s' e :
+  stabilize p c s = Ok (s', e) -> (status s = 0 /\ status s' = 0) \/ (status s <> 0 /\ s' = s /\ e = Some EAlreadyStabilizing).
+Proof.
+  intros H. destruct (Z.eq_dec (status s) 0) as [Hst|Hst].
+  - left. split; [exact Hst|eapply C07_status_released; eauto].
+  - right. rewrite (C07_already_stabilizing _ _ _ Hst) in H. injection H as <- <-. auto.
+Qed.
+
+(** ** What a user-function invocation can do: the plan's writes (value / pending / setAt of
+       vars, the heap, setDuring) and at most one fault *)
+Definition vpsAll (s s' : state) : Prop := forall m, vps (nd s m) (nd s' m).
+
+Lemma vpsAll_refl s : vpsAll s s.
+Proof. intros m. apply vps_refl. Qed.
+Lemma vpsAll_trans s1 s2 s3 : vpsAll s1 s2 -> vpsAll s2 s3 -> vpsAll s1 s3.
+Proof. intros H1 H2 m. eapply vps_trans; eauto. Qed.
+Lemma vpsAll_heapOnly s s' : heapOnly s s' -> vpsAll s s'.
+Proof. intros [w ->] m. apply vps_refl. Qed.
+Lemma vpsAll_hhOnly s s' : hhOnly s s' -> vpsAll s s'.
+Proof. intros (w & h & ->) m. apply vps_refl. Qed.
+
+Lemma vpsAll_upd s n f : (forall x, vps x (f x)) -> vpsAll s (upd s n f).
+Proof.
+  intros Hf m. rewrite nd_upd_if. destruct (decide (m = n)) as [->|]; [|apply vps_refl].
+  destruct (nodes s !! n) eqn:E; [apply Hf|]. unfold nd. rewrite E. apply vps_refl.
+Qed.
+
+Lemma vps_set_value x a : vps x (x <| value := a |>).
+Proof. exists a, (pending x), (setAt x). destruct x; reflexivity. Qed.
+Lemma vps_set_pending x a : vps x (x <| pending := a |>).
+Proof. exists (value x), a, (setAt x). destruct x; reflexivity. Qed.
+Lemma vps_set_setAt x a : vps x (x <| setAt := a |>).
+Proof. exists (value x), (pending x), a. destruct x; reflexivity. Qed.
+
+Lemma setStale_vpsAll s n s' : setStale s n = Ok s' -> vpsAll s s'.
+Proof. intros H. exact (proj1 (proj2 (dfr_setStale _ _ _ H))). Qed.
+
+Lemma varSet_vpsAll s v x s' : varSet s v x = Ok s' -> vpsAll s s'.
+Proof.
+  rewrite varSet_unfold. destruct (eqNoop s v x); [intros [= <-]; apply vpsAll_refl|].
+  destruct (status s =? 1).
+  { intros [= <-]. intros m. unfold deferSet. change (vps (nd s m) (nd (upd s v (set pending (fun _ => Some x))) m)).
+    apply vpsAll_upd. intros y. apply vps_set_pending. }
+  cbv zeta. assert (H0 : vpsAll s (upd s v (set value (fun _ => x)))) by (apply vpsAll_upd; intros y; apply vps_set_value).
+  destruct (isNecessary _); [|intros [= <-]; exact H0].
+  intros H%setStale_vpsAll. eapply vpsAll_trans; eauto.
+Qed.
+
+Lemma varSet_inHeap s v x s' m : varSet s v x = Ok s' -> inHeap s m = true -> inHeap s' m = true.
+Proof.
+  rewrite varSet_unfold. destruct (eqNoop s v x); [intros [= <-]; auto|].
+  destruct (status s =? 1); [intros [= <-]; auto|]. cbv zeta.
+  destruct (isNecessary _); [|intros [= <-]; auto].
+  intros H Hm. apply (proj2 (proj2 (proj2 (dfr_setStale _ _ _ H)))). exact Hm.
+Qed.
+
+Lemma varSet_log s v x s' : varSet s v x = Ok s' -> log s' = log s /\ handlers s' = handlers s.
+Proof.
+  rewrite varSet_unfold. destruct (eqNoop s v x); [intros [= <-]; auto|].
+  destruct (status s =? 1); [intros [= <-]; auto|]. cbv zeta.
+  destruct (isNecessary _); [|intros [= <-]; auto].
+  intros H. destruct (dfr_state _ _ (dfr_setStale _ _ _ H)) as (_ & _ & _ & _ & _ & _ & _ & _ & _ & _ & _ & E1 & _ & E2).
+  auto.
+Qed.
+
+(* the first fault among a list of actions *)
+Fixpoint firstFault (acts : list action) : option faultkind :=
+  match acts with
+  | [] => None
+  | AFail k :: _ => Some k
+  | _ :: acts => firstFault acts
+  end.
+
+Lemma applyActions_gen_spec acts : forall s f s' f',
+  rfold (fun '(s, f) a =>
+         match f with
+         | Some _ => Ok (s, f)
+         | None =>
+           match a with
+           | AFail k => Ok (s, Some k)
+           | ASet v x => s <-! varSet s v x; Ok (s, None)
+           | AUpdate v d => s <-! varUpdate s v d; Ok (s, None)
+           end
+         end) acts (s, f) = Ok (s', f') ->
+  vpsAll s s' /\ log s' = log s /\ handlers s' = handlers s /\
+  (forall m, inHeap s m = true -> inHeap s' m = true) /\
+  f' = match f with Some k => Some k | None => firstFault acts end.
+Proof.
+  induction acts as [|a acts IH]; intros s f s' f' H; cbn [rfold] in H.
+  - injection H as <- <-. split; [apply vpsAll_refl|]. repeat split; auto. destruct f; reflexivity.
+  - apply rbind_ok in H as ([s1 f1] & H1 & H%IH). destruct H as (A1 & A2 & A3 & A4 & ->).
+    destruct f as [k|].
+    { injection H1 as <- <-. repeat split; auto. }
+    destruct a as [k|v x|v d].
+    + injection H1 as <- <-. repeat split; auto.
+    + apply rbind_ok in H1 as (s2 & H2 & [= <- <-]).
+      destruct (varSet_log _ _ _ _ H2) as [B1 B2].
+      split; [eapply vpsAll_trans; [eapply varSet_vpsAll, H2|exact A1]|].
+      split; [congruence|]. split; [congruence|]. split; [|reflexivity].
+      intros m Hm. apply A4. eapply varSet_inHeap; eauto.
+    + apply rbind_ok in H1 as (s2 & H2 & [= <- <-]). rewrite varUpdate_unfold in H2.
+      destruct (varSet_log _ _ _ _ H2) as [B1 B2].
+      split; [eapply vpsAll_trans; [eapply varSet_vpsAll, H2|exact A1]|].
+      split; [congruence|]. split; [congruence|]. split; [|reflexivity].
+      intros m Hm. apply A4. eapply varSet_inHeap; eauto.
+Qed.
+
+Definition faultErr (n : nid) (k : faultkind) : err := match k with FErr => EUser n | FPanic => EPanic n end.
+
+(** C07.4 (the local half): the error an invocation yields is the plan's fault at that node *)
+Lemma invoke_spec p s n w s' e :
+  invoke p s n w = Ok (s', e) ->
+  e = option_map (faultErr n) (firstFault (actions_of p n w)) /\
+  vpsAll s s' /\ (forall m, inHeap s m = true -> inHeap s' m = true) /\ handlers s' = handlers s /\
+  exists L, log s' = L ++ log s /\
+            L = match firstFault (actions_of p n w) with Some k => [EvFault n w k] | None => [] end.
+Proof.
+  unfold invoke, applyActions. intros H. apply rbind_ok in H as ([s1 f] & H1 & H).
+  apply applyActions_gen_spec in H1 as (A1 & A2 & A3 & A4 & ->).
+  destruct (firstFault (actions_of p n w)) as [[]|]; injection H as <- <-;
+    (split; [reflexivity|]); (split; [exact A1|]); (split; [exact A4|]); (split; [exact A3|]);
+    eexists; (split; [|reflexivity]); cbn; rewrite A2; reflexivity.
+Qed.
+
+Lemma firstFault_in acts k : firstFault acts = Some k -> AFail k ∈ acts.
+Proof.
+  induction acts as [|a acts IH]; [discriminate|]. destruct a; cbn.
+  - intros [= ->]. left.
+  - intros H. right. apply IH, H.
+  - intros H. right. apply IH, H.
+Qed.
+
+(** the errors of the structural functions are structural *)
+Definition structErr (e : option err) : Prop := e = None \/ e = Some ECycle \/ e = Some EHeightLimit.
+
+Lemma se_efold {A} (f : state -> A -> M) l :
+  (forall s a s' e, f s a = Ok (s', e) -> structErr e) ->
+  forall s s' e, efold f l s = Ok (s', e) -> structErr e.
+Proof.
+  intros Hf. induction l as [|a l IH]; intros s s' e H; cbn in H.
+  - injection H as <- <-. left. reflexivity.
+  - apply ebind_cases in H as (s1 & e1 & H1 & [(x & -> & -> & ->)|(-> & H)]).
+    + eapply Hf, H1.
+    + eapply IH, H.
+Qed.
+
+Lemma se_setHeight s n h s' e : setHeight s n h = Ok (s', e) -> structErr e.
+Proof.
+  unfold setHeight, fail, ok. destruct (h >? maxHeight s - 1); [intros [= <- <-]; right; right; reflexivity|].
+  intros [= <- <-]. left. reflexivity.
+Qed.
+
+Lemma se_lift m s' e : lift m = Ok (s', e) -> structErr e.
+Proof. intros [_ ->]%lift_cases. left. reflexivity. Qed.
+
+Lemma se_becameNecessaryRecursive fuel : forall s n s' e,
+  becameNecessaryRecursive fuel s n = Ok (s', e) -> structErr e.
+Proof.
+  induction fuel as [|fuel IH]; intros s n s' e H; [discriminate|].
+  cbn [becameNecessaryRecursive] in H.
+  apply ebind_cases in H as (s1 & e1 & H1%se_setHeight & [(x & -> & -> & ->)|(-> & H)]); [exact H1|].
+  apply ebind_cases in H as (s2 & e2 & H2 & H).
+  assert (S2 : structErr e2).
+  { revert H2. apply se_efold. intros t p t' e' G.
+    apply ebind_cases in G as (t1 & e1 & G1 & [(x & -> & -> & ->)|(-> & G)]).
+    - destruct (isNecessary _); [discriminate G1|eapply IH, G1].
+    - destruct (_ >=? _); [eapply se_setHeight, G|injection G as <- <-; left; reflexivity]. }
+  destruct H as [(x & -> & -> & ->)|(-> & H)]; [exact S2|].
+  destruct (isStale _ _); [eapply se_lift, H|injection H as <- <-; left; reflexivity].
+Qed.
+
+Lemma se_addChildWithoutAdjustingHeights fuel s c p s' e :
+  addChildWithoutAdjustingHeights fuel s c p = Ok (s', e) -> structErr e.
+Proof.
+  unfold addChildWithoutAdjustingHeights. destruct (isNecessary _).
+  - intros [= <- <-]. left. reflexivity.
+  - apply se_becameNecessaryRecursive.
+Qed.
+
+Lemma se_ensureHeightRequirement s o c p s' e :
+  ensureHeightRequirement s o c p = Ok (s', e) -> structErr e.
+Proof.
+  unfold ensureHeightRequirement, fail, ok. destruct (bool_decide _); [intros [= <- <-]; right; left; reflexivity|].
+  destruct (_ >=? _); [|intros [= <- <-]; left; reflexivity]. intros H.
+  apply ebind_cases in H as (s1 & e1 & [H1 ->]%lift_cases & [(x & [=] & _)|(_ & H%se_setHeight)]). exact H.
+Qed.
+
+Lemma se_adjustLoop fuel : forall s o s' e, adjustLoop fuel s o = Ok (s', e) -> structErr e.
+Proof.
+  induction fuel as [|fuel IH]; intros s o s' e H; [discriminate|]. cbn [adjustLoop] in H.
+  destruct (_ <=? 0); [injection H as <- <-; left; reflexivity|].
+  apply rbind_ok in H as ([popped s1] & H1 & H).
+  destruct popped as [p|]; [|discriminate].
+  apply ebind_cases in H as (s2 & e2 & [H2 ->]%lift_cases & [(x & [=] & _)|(_ & H)]).
+  apply ebind_cases in H as (s3 & e3 & H3 & H).
+  assert (S3 : structErr e3).
+  { revert H3. apply se_efold. intros ? ? ? ?. apply se_ensureHeightRequirement. }
+  destruct H as [(x & -> & -> & ->)|(-> & H)]; [exact S3|].
+  apply ebind_cases in H as (s4 & e4 & H4 & H).
+  assert (S4 : structErr e4).
+  { destruct (nkind (nd s3 p)); try (injection H4 as <- <-; left; reflexivity).
+    revert H4. apply se_efold. intros ? ? ? ?.
+    destruct (isNecessary _); [apply se_ensureHeightRequirement|intros [= <- <-]; left; reflexivity]. }
+  destruct H as [(x & -> & -> & ->)|(-> & H%IH)]; assumption.
+Qed.
+
+Lemma se_adjustHeights fuel s c p s' e : adjustHeights fuel s c p = Ok (s', e) -> structErr e.
+Proof.
+  unfold adjustHeights. intros H.
+  apply ebind_cases in H as (s1 & e1 & H1%se_ensureHeightRequirement & [(x & -> & -> & ->)|(-> & H%se_adjustLoop)]); assumption.
+Qed.
+
+Lemma se_addChild fuel s c p s' e : addChild fuel s c p = Ok (s', e) -> structErr e.
+Proof.
+  unfold addChild. intros H.
+  apply ebind_cases in H as (s1 & e1 & H1%se_addChildWithoutAdjustingHeights & [(x & -> & -> & ->)|(-> & H)]); [exact H1|].
+  apply ebind_cases in H as (s2 & e2 & H2 & H).
+  assert (S2 : structErr e2) by (destruct (_ >=? _); [eapply se_adjustHeights, H2|injection H2 as <- <-; left; reflexivity]).
+  destruct H as [(x & -> & -> & ->)|(-> & H)]; [exact S2|].
+  apply ebind_cases in H as (s3 & e3 & [H3 ->]%lift_cases & [(x & [=] & _)|(_ & H)]).
+  destruct (_ || _); [eapply se_lift, H|injection H as <- <-; left; reflexivity].
+Qed.
+
+Lemma se_changeParent fuel s c o n s' e : changeParent fuel s c o n = Ok (s', e) -> structErr e.
+Proof.
+  unfold changeParent. intros H. destruct o as [o|], n as [n|].
+  - destruct (bool_decide _); [injection H as <- <-; left; reflexivity|].
+    apply ebind_cases in H as (s1 & e1 & H1%se_addChild & [(x & -> & -> & ->)|(-> & H%se_lift)]); assumption.
+  - eapply se_lift, H.
+  - eapply se_addChild, H.
+  - injection H as <- <-. left. reflexivity.
+Qed.
+
+(* a bind's lhs-change node: the bind function's fault, or a structural rejection *)
+Lemma bindLhsStabilize_err fuel p s b s' e :
+  bindLhsStabilize fuel p s b = Ok (s', e) ->
+  structErr e \/ (exists k, firstFault (actions_of p b WFn) = Some k /\ e = Some (faultErr b k)).
+Proof.
+  unfold bindLhsStabilize. intros H.
+  apply rbind_ok in H as ([[s1 e1] built] & H1 & H).
+  destruct (if b_memo (bd s b) then _ else _) as [[? [? root]]|].
+  - injection H1 as <- <- <-.
+    apply ebind_cases in H as (s2 & e2 & H2%se_changeParent & [(x & -> & -> & ->)|(-> & H)]); [left; exact H2|].
+    apply ebind_cases in H as (s3 & e3 & [H3 ->]%lift_cases & [(x & [=] & _)|(_ & H%se_lift)]). left. exact H.
+  - apply rbind_ok in H1 as ([s2 e2] & H2%invoke_spec & H1). destruct H2 as (-> & _).
+    destruct (firstFault (actions_of p b WFn)) as [k|] eqn:Ef; cbn [option_map] in H1.
+    + injection H1 as <- <- <-. injection H as <- <-. right. exists k. auto.
+    + destruct (inst s2 _ _ _) as [s3 root]. injection H1 as <- <- <-.
+      apply ebind_cases in H as (s4 & e4 & H4%se_changeParent & [(x & -> & -> & ->)|(-> & H)]); [left; exact H4|].
+      apply ebind_cases in H as (s5 & e5 & [H5 ->]%lift_cases & [(x & [=] & _)|(_ & H%se_lift)]). left. exact H.
+Qed.
+
+Lemma vpsAll_emit e s : vpsAll s (emit e s).
+Proof. intros m. apply vps_refl. Qed.
+
+Lemma maybeCutoff_spec p s0 n x s1 e cut :
+  maybeCutoff p s0 n x = Ok (s1, e, cut) ->
+  vpsAll s0 s1 /\ (forall m, inHeap s0 m = true -> inHeap s1 m = true) /\ handlers s1 = handlers s0 /\
+  match nkind x with
+  | KCutoff c =>
+    e = option_map (faultErr n) (firstFault (actions_of p n WCut)) /\
+    (e <> None -> cut = false) /\
+    (e = None -> cut = apCut c (value x) (valueOf s0 (hd 0%nat (decl x))) /\
+                 exists s1', invoke p s0 n WCut = Ok (s1', None) /\
+                             s1 = emit (EvCutoff n (value x) (valueOf s0 (hd 0%nat (decl x))) cut) s1')
+  | _ => e = None /\ cut = false /\ s1 = s0
+  end.
+Proof.
+  unfold maybeCutoff. intros H.
+  destruct (nkind x); try (injection H as <- <- <-; split; [apply vpsAll_refl|]; repeat split; auto).
+  apply rbind_ok in H as ([s2 e2] & H2 & H). pose proof H2 as H2'.
+  apply invoke_spec in H2 as (-> & A1 & A2 & A3 & _).
+  destruct (firstFault (actions_of p n WCut)) as [k|]; cbn [option_map] in *; injection H as <- <- <-.
+  - split; [exact A1|]. split; [exact A2|]. split; [exact A3|]. split; [reflexivity|].
+    split; [reflexivity|discriminate].
+  - split; [exact A1|]. split; [exact A2|]. split; [exact A3|]. split; [reflexivity|].
+    split; [intros []; reflexivity|]. intros _. split; [reflexivity|]. eexists. split; [exact H2'|reflexivity].
+Qed.
+
+Lemma pf_maybeCutoff p s0 n x s1 e cut : maybeCutoff p s0 n x = Ok (s1, e, cut) -> pframe s0 s1.
+Proof. unfold maybeCutoff. eapply (fr_maybeCutoff pframe); [exact pframe_hyps|apply planv_True]. Qed.
+
+(* the stabilize step of every kind but a bind's lhs-change node is shallow *)
+Lemma stabilizeNode_shallow fuel p s n s' e :
+  (forall b, nkind (nd s n) <> KBindLhs b) -> stabilizeNode fuel p s n = Ok (s', e) ->
+  vpsAll s s' /\ (forall m, inHeap s m = true -> inHeap s' m = true) /\ handlers s' = handlers s /\
+  e = match nkind (nd s n) with
+      | KMap _ | KMap2 _ | KMapN _ => option_map (faultErr n) (firstFault (actions_of p n WFn))
+      | _ => None
+      end.
+Proof.
+  intros Hk. unfold stabilizeNode, ok, fail. destruct (nkind (nd s n)) eqn:Ek.
+  - destruct (pending _); [destruct (_ =? _)|]; intros [= <- <-];
+      (split; [first [apply vpsAll_refl|apply vpsAll_upd; intros y; eapply vps_trans; [apply vps_set_value|apply vps_set_pending]]|]);
+      repeat split; auto.
+  - intros [= <- <-]. split; [apply vpsAll_refl|]. repeat split; auto.
+  - intros H. apply rbind_ok in H as ([s1 e1] & H1%invoke_spec & H). destruct H1 as (-> & A1 & A2 & A3 & _).
+    destruct (firstFault _); cbn [option_map] in *; injection H as <- <-.
+    + repeat split; auto.
+    + split; [eapply vpsAll_trans; [exact A1|eapply vpsAll_trans; [apply vpsAll_upd; intros y; apply vps_set_value|apply vpsAll_emit]]|].
+      repeat split; auto.
+  - intros H. apply rbind_ok in H as ([s1 e1] & H1%invoke_spec & H). destruct H1 as (-> & A1 & A2 & A3 & _).
+    destruct (firstFault _); cbn [option_map] in *; injection H as <- <-.
+    + repeat split; auto.
+    + split; [eapply vpsAll_trans; [exact A1|eapply vpsAll_trans; [apply vpsAll_upd; intros y; apply vps_set_value|apply vpsAll_emit]]|].
+      repeat split; auto.
+  - intros H. apply rbind_ok in H as ([s1 e1] & H1%invoke_spec & H). destruct H1 as (-> & A1 & A2 & A3 & _).
+    destruct (firstFault _); cbn [option_map] in *; injection H as <- <-.
+    + repeat split; auto.
+    + split; [eapply vpsAll_trans; [exact A1|eapply vpsAll_trans; [apply vpsAll_upd; intros y; apply vps_set_value|apply vpsAll_emit]]|].
+      repeat split; auto.
+  - intros [= <- <-]. split; [apply vpsAll_upd; intros y; apply vps_set_value|]. repeat split; auto.
+  - intros [= <- <-]. split; [apply vpsAll_refl|]. repeat split; auto.
+  - exfalso. eapply Hk. reflexivity.
+  - intros [= <- <-]. split; [apply vpsAll_upd; intros y; apply vps_set_value|]. repeat split; auto.
+Qed.
+
+(** C07.4 (node level): an error other than a structural rejection is the fault the plan holds
+    for the node being recomputed (for a bind's lhs-change node: for the bind's function) *)
+Lemma stabilizeNode_err fuel p s n s' e :
+  stabilizeNode fuel p s n = Ok (s', e) ->
+  structErr e \/
+  exists m k, firstFault (actions_of p m WFn) = Some k /\ e = Some (faultErr m k) /\
+              (m = n \/ nkind (nd s n) = KBindLhs m).
+Proof.
+  intros H. destruct (nkind (nd s n)) eqn:Ek;
+    try (destruct (stabilizeNode_shallow fuel p s n s' e) as (_ & _ & _ & He);
+         [intros b0; rewrite Ek; discriminate|exact H|]; rewrite Ek in He;
+         first [left; left; exact He
+               |destruct (firstFault (actions_of p n WFn)) as [k|] eqn:Ef; cbn in He;
+                [right; exists n, k; auto|left; left; exact He]]).
+  unfold stabilizeNode in H. rewrite Ek in H. apply bindLhsStabilize_err in H as [H|(k & Hk & ->)]; [left; exact H|].
+  right. exists b, k. auto.
+Qed.
+
+Lemma failTail_spec s2 n prev e s' e' imm :
+  failTail s2 n prev e = Ok (s', e', imm) ->
+  e' = Some e /\ imm = None /\
+  ((exists m, e = EPanic m /\ s' = s2) \/
+   ((forall m, e <> EPanic m) /\ inHeap s' n = true /\
+    (is_Some (nodes s2 !! n) -> recomputedAt (nd s' n) = prev) /\
+    (forall m, m <> n -> nd s' m = nd s2 m) /\
+    (forall m, inHeap s2 m = true -> inHeap s' m = true) /\ handlers s' = handlers s2)).
+Proof.
+  assert (G : forall s3, recomputeFailed s2 n prev = Ok s3 ->
+    inHeap (errorHandlers s3 n) n = true /\
+    (is_Some (nodes s2 !! n) -> recomputedAt (nd (errorHandlers s3 n) n) = prev) /\
+    (forall m, m <> n -> nd (errorHandlers s3 n) m = nd s2 m) /\
+    (forall m, inHeap s2 m = true -> inHeap (errorHandlers s3 n) m = true) /\
+    handlers (errorHandlers s3 n) = handlers s2).
+  { intros s3 H3. unfold recomputeFailed in H3.
+    destruct (errorHandlers_eq s3 n) as (L & -> & _).
+    pose proof (heapAddIfNotPresent_heapOnly _ _ _ H3) as Ho.
+    split; [|split; [|split; [|split]]].
+    - change (inHeap s3 n = true). rewrite (heapAddIfNotPresent_inHeap _ _ _ n H3).
+      rewrite bool_decide_eq_true_2 by reflexivity. reflexivity.
+    - intros Hs. change (recomputedAt (nd s3 n) = prev). rewrite (heapOnly_nd _ _ n Ho).
+      rewrite nd_upd_same by exact Hs. destruct (nd s2 n); reflexivity.
+    - intros m Hm. change (nd s3 m = nd s2 m). rewrite (heapOnly_nd _ _ m Ho). apply nd_upd_other, Hm.
+    - intros m Hm. change (inHeap s3 m = true). rewrite (heapAddIfNotPresent_inHeap _ _ _ m H3).
+      apply orb_true_iff. right. exact Hm.
+    - destruct Ho as [w ->]. reflexivity. }
+  unfold failTail. destruct e;
+    try (intros H; apply rbind_ok in H as (s3 & H3 & [= <- <- <-]);
+         split; [reflexivity|]; split; [reflexivity|]; right; split; [discriminate|apply G, H3]).
+  intros [= <- <- <-]. split; [reflexivity|]. split; [reflexivity|]. left. eauto.
+Qed.
+
+(** C07.2 / C03.3 (error half): a node whose recompute failed with an error (not a panic) is back
+    in the heap with the stamp it had before *)
+Lemma C07_failed_node_stays_scheduled fuel p s n s' e imm :
+  recomputeNodeSerial fuel p s n = Ok (s', Some e, imm) -> (forall m, e <> EPanic m) ->
+  is_Some (nodes s !! n) ->
+  inHeap s' n = true /\ recomputedAt (nd s' n) = recomputedAt (nd s n) /\ imm = None.
+Proof.
+  rewrite recomputeNodeSerial_unfold. cbv zeta. intros H Hne Hs.
+  apply rbind_ok in H as ([[s1 e1] cut] & H1 & H).
+  assert (Hs1 : is_Some (nodes s1 !! n)).
+  { apply pf_maybeCutoff in H1 as (_ & _ & _ & _ & _ & Hd & _). apply Hd, some_upd, Hs. }
+  assert (Fin : forall s2 e2, is_Some (nodes s2 !! n) ->
+            failTail s2 n (recomputedAt (nd s n)) e2 = Ok (s', Some e, imm) ->
+            inHeap s' n = true /\ recomputedAt (nd s' n) = recomputedAt (nd s n) /\ imm = None).
+  { intros s2 e2 Hs2 Hf. apply failTail_spec in Hf as ([= ->] & -> & [(m & -> & _)|(_ & A1 & A2 & _)]).
+    - exfalso. eapply Hne. reflexivity.
+    - auto. }
+  destruct e1 as [e1|]; [eapply Fin; eauto|].
+  destruct cut; [discriminate|].
+  apply rbind_ok in H as ([s2 e2] & H2 & H).
+  destruct e2 as [e2|]; [|apply successTail_shape in H as [[=] _]].
+  eapply Fin; [|exact H]. apply pf_stabilizeNode in H2 as (_ & _ & _ & _ & _ & Hd & _). apply Hd, Hs1.
+Qed.
+
+(** C03.3 (success half): every non-failing recompute stamps the node with the pass number.
+    PARTIAL for a bind's lhs-change node, whose stabilize step restructures the graph and could
+    in an arbitrary (ill-formed) state tear the node itself down. *)
+Lemma C03_recompute_stamps_partial fuel p s n s' imm :
+  recomputeNodeSerial fuel p s n = Ok (s', None, imm) ->
+  is_Some (nodes s !! n) -> (forall b, nkind (nd s n) <> KBindLhs b) ->
+  recomputedAt (nd s' n) = stabNum s /\ stabNum s' = stabNum s.
+Proof.
+  intros H Hs Hk. split; [|apply pf_recomputeNodeSerial in H as (_ & E & _); exact E].
+  rewrite recomputeNodeSerial_unfold in H. cbv zeta in H.
+  apply rbind_ok in H as ([[s1 e1] cut] & H1 & H).
+  set (s0 := upd s n _) in *.
+  assert (E0 : nd s0 n = nd s n <| recomputedAt := stabNum s |>) by (apply nd_upd_same, Hs).
+  apply maybeCutoff_spec in H1 as (V1 & _).
+  assert (R1 : recomputedAt (nd s1 n) = stabNum s /\ nkind (nd s1 n) = nkind (nd s n)).
+  { destruct (vps_fields _ _ (V1 n)) as (K & _ & _ & _ & _ & R & _). rewrite R, K, E0.
+    destruct (nd s n); split; reflexivity. }
+  destruct e1 as [e1|]; [apply failTail_spec in H as ([=] & _)|].
+  destruct cut; [injection H as <- <-; apply R1|].
+  apply rbind_ok in H as ([s2 e2] & H2 & H).
+  destruct e2 as [e2|]; [apply failTail_spec in H as ([=] & _)|].
+  apply stabilizeNode_shallow in H2 as (V2 & _); [|intros b; rewrite (proj2 R1); apply Hk].
+  apply successTail_shape in H as (_ & Hh). rewrite (hhOnly_nd _ _ n Hh).
+  rewrite (nd_upd_keep recomputedAt) by (intros []; reflexivity).
+  destruct (vps_fields _ _ (V2 n)) as (_ & _ & _ & _ & _ & R & _). rewrite R. apply R1.
+Qed.
+
+(** C07.4: the error a recompute returns is the fault the plan holds there *)
+Lemma C07_error_is_returned_node fuel p s n s' e imm :
+  recomputeNodeSerial fuel p s n = Ok (s', Some e, imm) ->
+  structErr (Some e) \/
+  exists m w k, firstFault (actions_of p m w) = Some k /\ e = faultErr m k /\
+                (m = n \/ nkind (nd s n) = KBindLhs m).
+Proof.
+  rewrite recomputeNodeSerial_unfold. cbv zeta. intros H.
+  apply rbind_ok in H as ([[s1 e1] cut] & H1 & H).
+  pose proof H1 as H1'. apply maybeCutoff_spec in H1 as (V1 & _ & _ & Hm).
+  destruct e1 as [e1|].
+  { apply failTail_spec in H as ([= ->] & _). right.
+    destruct (nkind (nd s n)); try (destruct Hm as (Hm & _); discriminate Hm).
+    destruct Hm as (He & _). destruct (firstFault (actions_of p n WCut)) as [k|] eqn:Ef; [|discriminate].
+    injection He as ->. exists n, WCut, k. auto. }
+  destruct cut; [discriminate|].
+  apply rbind_ok in H as ([s2 e2] & H2 & H).
+  destruct e2 as [e2|]; [|apply successTail_shape in H as [[=] _]].
+  apply failTail_spec in H as ([= ->] & _).
+  assert (Ek : nkind (nd s1 n) = nkind (nd s n)).
+  { destruct (vps_fields _ _ (V1 n)) as (K & _). rewrite K. apply (nd_upd_keep nkind). intros []; reflexivity. }
+  apply stabilizeNode_err in H2 as [H2|(m & k & Hk & [= ->] & Hn)]; [left; exact H2|].
+  right. exists m, WFn, k. rewrite Ek in Hn. auto.
+Qed.
+
+(** the failing recompute of a chain / of the pass loop is the recompute of the node it blames *)
+Lemma recomputeChain_err fuel : forall p s n s' e at_,
+  recomputeChain fuel p s n = Ok (s', Some e, at_) ->
+  exists fuel' si imm, recomputeNodeSerial fuel' p si at_ = Ok (s', Some e, imm).
+Proof.
+  induction fuel as [|fuel IH]; intros p s n s' e at_ H; [discriminate|]. cbn [recomputeChain] in H.
+  apply rbind_ok in H as ([[s1 e1] imm] & H1 & H).
+  destruct e1 as [e1|]; [injection H as <- <- <-; eauto|].
+  destruct imm as [c|]; [eapply IH, H|discriminate].
+Qed.
+
+Lemma passLoop_err fuel : forall p s always s' e at_ always',
+  passLoop fuel p s always = Ok (s', Some e, at_, always') ->
+  exists fuel' si imm, recomputeNodeSerial fuel' p si at_ = Ok (s', Some e, imm).
+Proof.
+  induction fuel as [|fuel IH]; intros p s always s' e at_ always' H; [discriminate|]. cbn [passLoop] in H.
+  destruct (_ <=? 0); [discriminate|].
+  destruct (Heap.removeMin _) as [[n w]|]; [|discriminate].
+  apply rbind_ok in H as ([[s1 e1] at1] & H1 & H).
+  destruct e1 as [e1|]; [injection H as <- <- <- <-; eapply recomputeChain_err, H1|eapply IH, H].
+Qed.
+
+(** C07.4: the error a pass returns is cancellation, a structural rejection raised by a bind, or
+    the fault the plan holds for the node the pass blames *)
+Lemma C07_error_is_returned p c s s' e :
+  status s = 0 -> stabilize p c s = Ok (s', Some e) ->
+  (c = true /\ e = ECancelled) \/
+  exists sL at_ always, passResult p c s = Ok (sL, Some e, at_, always) /\
+    (structErr (Some e) \/
+     exists si m w k, firstFault (actions_of p m w) = Some k /\ e = faultErr m k /\
+                      (m = at_ \/ nkind (nd si at_) = KBindLhs m)).
+Proof.
+  intros Hst H. destruct (stabilize_decompose _ _ _ _ _ Hst H) as (sL & at_ & always & s2 & s3 & H1 & _).
+  pose proof H1 as H1'. unfold passResult in H1. cbv zeta in H1. destruct (c && _) eqn:Ec.
+  - injection H1 as <- <- <- <-. left. apply andb_true_iff in Ec as [-> _]. auto.
+  - right. exists sL, at_, always. split; [exact H1'|].
+    apply passLoop_err in H1 as (fuel' & si & imm & Hr).
+    apply C07_error_is_returned_node in Hr as [Hr|(m & w & k & A & B & C)]; [left; exact Hr|].
+    right. exists si, m, w, k. auto.
+Qed.
+
+(** C07.2 (pass level): the node blamed for a panic is queued again with a zero stamp *)
+Lemma C07_panicked_node_requeued p c s s' m :
+  status s = 0 -> ids_below s -> plan_ok s p = true ->
+  Forall (fun v => isVar s v = true) (setDuring s ++ setRemoved s) ->
+  stabilize p c s = Ok (s', Some (EPanic m)) ->
+  exists sL at_ always, passResult p c s = Ok (sL, Some (EPanic m), at_, always) /\
+    recomputedAt (nd s' at_) = 0 /\ inHeap s' at_ = true.
+Proof.
+  intros Hst Hids Hp Hv0 H.
+  destruct (stabilize_decompose _ _ _ _ _ Hst H) as (sL & at_ & always & s2 & s3 & H1 & H2 & H3 & H4).
+  exists sL, at_, always. split; [exact H1|].
+  destruct (passResult_frames _ _ _ _ _ _ _ H1) as (Hpf & Hwv & _). specialize (Hwv Hp).
+  assert (HvL : Forall (fun v => isVar sL v = true) (setRemoved sL ++ setDuring sL)).
+  { eapply (pass_deferred_are_vars (passStart s) sL p); [exact Hids|exact Hp|exact Hv0|exact Hpf|exact Hwv]. }
+  pose proof (requeueAlways_heapOnly _ _ _ H2) as Ho2.
+  destruct (recoverPanic_spec _ _ _ _ H3) as (LE & _ & _ & _ & _ & _ & _ & SD3 & SR3 & _ & V3 & _ & P3).
+  assert (Hv3 : Forall (fun v => isVar s3 v = true) (setRemoved s3 ++ setDuring s3)).
+  { rewrite SD3, SR3. destruct Ho2 as [w ->]. eapply Forall_impl; [|exact HvL]. intros v Hv. cbv beta in *.
+    rewrite V3. exact Hv. }
+  destruct (stabilizeEnd_spec _ _ _ Hv3 H4) as (_ & _ & _ & _ & _ & _ & _ & _ & _ & _ & Vp & _ & Hin & _).
+  destruct (P3 m eq_refl) as [R0 I0]. split; [|apply Hin, I0].
+  destruct (vps_fields _ _ (Vp at_)) as (_ & _ & _ & _ & _ & R & _). rewrite R. exact R0.
+Qed.
+
+(** ** Passes over a quiescent state with nothing to do *)
+Lemma applyDeferredSets_nil s : setDuring s = [] -> setRemoved s = [] -> applyDeferredSets s = Ok s.
+Proof.
+  intros E1 E2. rewrite applyDeferredSets_unfold, E1, E2. cbn [app rfold rbind].
+  f_equal. destruct s; cbn in *; subst; reflexivity.
+Qed.
+
+Definition passEpilogue (s : state) (evs : list event) : state :=
+  s <| log := rev (map (hev s) (handlers s)) ++ evs ++ log s |> <| handlers := [] |>
+    <| stabNum := stabNum s + 1 |>.
+
+Lemma stabilizeEnd_quiescent s e :
+  setDuring s = [] -> setRemoved s = [] ->
+  stabilizeEnd s e = Ok (passEpilogue s [EvPassEnd (classify e)] <| status := 0 |>).
+Proof.
+  intros E1 E2. unfold stabilizeEnd. rewrite runUpdateHandlers_eq.
+  rewrite applyDeferredSets_nil by (cbn; assumption). cbn [rbind]. f_equal.
+  unfold passEpilogue. cbn. rewrite (map_ext _ _ (hev_emit (EvPassEnd (classify e)) s)).
+  destruct s; reflexivity.
+Qed.
+
+Lemma hev_passStart s k : hev (passStart s) k = hev s k.
+Proof. apply hev_ext; [reflexivity|]. intros m. auto. Qed.
+
+Lemma passFuel_S s : exists k, passFuel s = S k.
+Proof. unfold passFuel. exists (64 * next s + 1023)%nat. lia. Qed.
+
+(** C03.1: with an empty heap the pass loop does nothing at all *)
+Lemma idle_passResult p c s :
+  Heap.cnt (heap s) <= 0 -> passResult p c s = Ok (passStart s, None, 0%nat, []).
+Proof.
+  intros Hc. unfold passResult. cbv zeta. change (heap (passStart s)) with (heap s).
+  destruct (Z.ltb_spec 0 (Heap.cnt (heap s))); [lia|]. rewrite andb_false_r.
+  destruct (passFuel_S (passStart s)) as [k ->]. cbn [passLoop]. change (heap (passStart s)) with (heap s).
+  destruct (Z.leb_spec (Heap.cnt (heap s)) 0); [reflexivity|lia].
+Qed.
+
+Lemma C03_idle_pass_runs_nothing p c s :
+  status s = 0 -> Heap.cnt (heap s) <= 0 -> setDuring s = [] -> setRemoved s = [] ->
+  stabilize p c s = Ok (passEpilogue s [EvPassEnd XOk; EvPassStart], None).
+Proof.
+  intros Hst Hc E1 E2. rewrite stabilize_unfold, Hst. change (negb (0 =? 0)) with false. cbv iota zeta.
+  fold (passStart s). fold (passResult p c s). rewrite (idle_passResult p c s Hc). cbn [rbind requeueAlways rfold recoverPanic].
+  rewrite stabilizeEnd_quiescent by assumption. cbn [rbind]. f_equal. f_equal.
+  unfold passEpilogue. rewrite (map_ext _ _ (hev_passStart s)). destruct s; cbn in *; subst; reflexivity.
+Qed.
+
+(* without the quiescence assumption: still no error and no computation *)
+Lemma C03_idle_pass_events p c s s' e :
+  status s = 0 -> ids_below s -> plan_ok s p = true ->
+  Forall (fun v => isVar s v = true) (setDuring s ++ setRemoved s) ->
+  Heap.cnt (heap s) <= 0 -> stabilize p c s = Ok (s', e) ->
+  e = None /\ rev (log s') = rev (log s) ++ [EvPassStart; EvPassEnd XOk] ++ map (hev s) (handlers s).
+Proof.
+  intros Hst Hids Hp Hv Hc H.
+  destruct (C13_bracket_and_order _ _ _ _ _ Hst Hids Hp Hv H) as (L & sL & at_ & always & H1 & Hlog & _).
+  rewrite (idle_passResult p c s Hc) in H1. injection H1 as <- <- <- <-.
+  destruct (stabilize_decompose _ _ _ _ _ Hst H) as (sL & at_ & always & s2 & s3 & H1 & H2 & H3 & H4).
+  rewrite (idle_passResult p c s Hc) in H1. injection H1 as <- <- <-.
+  split; [reflexivity|].
+  cbn in H2. injection H2 as <-. cbn in H3. injection H3 as <-.
+  (* recompute the log directly: L is empty here *)
+  clear Hlog L.
+  assert (HvL : Forall (fun v => isVar (passStart s) v = true) (setRemoved (passStart s) ++ setDuring (passStart s))).
+  { apply Forall_forall. intros v Hin%elem_of_list_In. rewrite Forall_forall in Hv.
+    change (isVar s v = true). apply Hv, elem_of_list_In. change (v ∈ setRemoved s ++ setDuring s) in Hin.
+    rewrite elem_of_app in *. tauto. }
+  destruct (stabilizeEnd_spec _ _ _ HvL H4) as (_ & _ & _ & _ & _ & _ & _ & _ & _ & Elog & _).
+  rewrite Elog. change (log (passStart s)) with (EvPassStart :: log s). change (handlers (passStart s)) with (handlers s).
+  rewrite (map_ext _ _ (hev_passStart s)).
+  rewrite rev_app_distr, rev_involutive. cbn [rev app classify]. rewrite <- !app_assoc. reflexivity.
+Qed.
+
+(** C07.3: a cancelled pass over a non-empty heap computes nothing and leaves the heap alone *)
+Lemma C07_cancelled_does_nothing p s :
+  status s = 0 -> 0 < Heap.cnt (heap s) -> setDuring s = [] -> setRemoved s = [] ->
+  stabilize p true s = Ok (passEpilogue s [EvPassEnd XCancelled; EvPassStart], Some ECancelled).
+Proof.
+  intros Hst Hc E1 E2. rewrite stabilize_unfold, Hst. change (negb (0 =? 0)) with false. cbv iota zeta.
+  fold (passStart s). change (heap (passStart s)) with (heap s).
+  destruct (Z.ltb_spec 0 (Heap.cnt (heap s))); [|lia]. cbn [andb rbind requeueAlways rfold recoverPanic].
+  rewrite stabilizeEnd_quiescent by assumption. cbn [rbind]. f_equal. f_equal.
+  unfold passEpilogue. rewrite (map_ext _ _ (hev_passStart s)). destruct s; cbn in *; subst; reflexivity.
+Qed.
+
+Lemma passEpilogue_frame s evs :
+  heap (passEpilogue s evs) = heap s /\ nodes (passEpilogue s evs) = nodes s /\
+  binds (passEpilogue s evs) = binds s /\ status (passEpilogue s evs) = status s /\
+  obs (passEpilogue s evs) = obs s /\ reg (passEpilogue s evs) = reg s.
+Proof. repeat split. Qed.
+
+(** * 6. C03: who gets recomputed *)
+
+(** C03.2: the exact condition under which a dependent is queued (or run at once) after a change *)
+Lemma C03_child_queued_only_if_owed s c :
+  shouldRecomputeChild s c = true <->
+  inHeap s c = false /\ isNecessary (nd s c) = true /\ valid (nd s c) = true /\
+  ((hasStaler (nkind (nd s c)) = false /\ recomputedAt (nd s c) < stabNum s) \/ isStale s c = true).
+Proof.
+  unfold shouldRecomputeChild. cbv zeta.
+  destruct (inHeap s c); cbn [orb]; [split; [discriminate|intros ([=] & _)]|].
+  destruct (isNecessary (nd s c)); cbn [negb]; [|split; [discriminate|intros (_ & [=] & _)]].
+  destruct (valid (nd s c)); cbn [negb]; [|split; [discriminate|intros (_ & _ & [=] & _)]].
+  destruct (hasStaler (nkind (nd s c))); cbn [negb andb].
+  - split; [intros H; repeat split; auto|intros (_ & _ & _ & [[[=] _]|H]); exact H].
+  - destruct (Z.ltb_spec (recomputedAt (nd s c)) (stabNum s)).
+    + split; [intros _; repeat split; auto|reflexivity].
+    + split; [intros H'; repeat split; auto|intros (_ & _ & _ & [[_ ?]|H']); [lia|exact H']].
+Qed.
+
+Lemma src_heapOnly s s' c :
+  heapOnly s s' -> inHeap s' c = inHeap s c -> shouldRecomputeChild s' c = shouldRecomputeChild s c.
+Proof. intros [w ->] Hin. unfold shouldRecomputeChild. rewrite Hin. reflexivity. Qed.
+
+Lemma childrenLoop_gen_inv (L : list nid) l : forall s held s' held',
+  (forall x, x ∈ l -> x ∈ L) ->
+  (forall h, held = Some h -> shouldRecomputeChild s h = true /\ h ∈ L) ->
+  rfold (fun '(s, held) c =>
+         if bool_decide (held = Some c) then Ok (s, held)
+         else if negb (shouldRecomputeChild s c) then Ok (s, held)
+         else
+           s <-! (match held with Some h => heapAdd s h | None => Ok s end);
+           Ok (s, Some c)) l (s, held) = Ok (s', held') ->
+  forall h, held' = Some h -> shouldRecomputeChild s' h = true /\ h ∈ L.
+Proof.
+  induction l as [|c l IH]; intros s held s' held' Hl Hh H; cbn [rfold] in H.
+  - injection H as <- <-. exact Hh.
+  - apply rbind_ok in H as ([s1 h1] & H1 & H). eapply IH; [|clear H|exact H].
+    { intros x Hx. apply Hl. right. exact Hx. }
+    destruct (bool_decide (held = Some c)) eqn:Eb; [injection H1 as <- <-; exact Hh|].
+    apply bool_decide_eq_false in Eb.
+    destruct (shouldRecomputeChild s c) eqn:Es; cbn [negb] in H1; [|injection H1 as <- <-; exact Hh].
+    apply rbind_ok in H1 as (s2 & H2 & [= <- <-]). intros h [= <-]. split; [|apply Hl; left].
+    destruct held as [h0|]; [|injection H2 as <-; exact Es].
+    rewrite (src_heapOnly s s2 c (heapAdd_heapOnly _ _ _ H2)); [exact Es|].
+    rewrite (heapAdd_inHeap _ _ _ c H2). rewrite bool_decide_eq_false_2; [reflexivity|].
+    intros ->. apply Eb. reflexivity.
+Qed.
+
+(** C03.4 (immediate child): the dependent handed back for immediate recompute was owed one and
+    passed [canRecomputeImmediately] *)
+Lemma C03_immediate_child_is_owed fuel p s n s' e c :
+  recomputeNodeSerial fuel p s n = Ok (s', e, Some c) ->
+  e = None /\ c ∈ children (nd s' n) /\ shouldRecomputeChild s' c = true /\
+  canRecomputeImmediately s' n c = true.
+Proof.
+  rewrite recomputeNodeSerial_unfold. cbv zeta. intros H.
+  apply rbind_ok in H as ([[s1 e1] cut] & _ & H).
+  destruct e1 as [e1|]; [apply failTail_spec in H as (_ & [=] & _)|].
+  destruct cut; [discriminate|].
+  apply rbind_ok in H as ([s2 e2] & _ & H).
+  destruct e2 as [e2|]; [apply failTail_spec in H as (_ & [=] & _)|].
+  unfold successTail in H.
+  set (t0 := insert_handler n _) in *.
+  apply rbind_ok in H as ([t1 held] & H1 & H).
+  apply rbind_ok in H as ([t2 imm2] & H2 & [= <- <- ->]). split; [reflexivity|].
+  rewrite insert_handlers_eq.
+  destruct held as [h|]; [|discriminate].
+  destruct (canRecomputeImmediately t1 n h) eqn:Ec.
+  2:{ apply rbind_ok in H2 as (? & _ & [=]). }
+  injection H2 as <- <-.
+  pose proof (childrenLoop_heapOnly _ _ _ _ H1) as Ho.
+  unfold childrenLoop in H1.
+  assert (Hnone : forall h0 : nid, None = Some h0 -> shouldRecomputeChild t0 h0 = true /\ h0 ∈ children (nd t0 n))
+    by (intros ? [=]).
+  destruct (childrenLoop_gen_inv (children (nd t0 n)) _ _ _ _ _ (fun x Hx => Hx) Hnone H1 h eq_refl) as [Hs Hc].
+  split; [|split].
+  - change (h ∈ children (nd t1 n)). rewrite (heapOnly_nd _ _ n Ho). exact Hc.
+  - exact Hs.
+  - exact Ec.
+Qed.
+
+(** C03.4 (popped node): one iteration of the pass loop recomputes the node the heap hands out,
+    which was queued; a chain continues only into an owed, immediately recomputable dependent *)
+Lemma removeMin_in_ids w n w' : Heap.removeMin w = Some (n, w') -> n ∈ Heap.ids w.
+Proof.
+  unfold Heap.removeMin. destruct (_ <=? 0); [discriminate|].
+  destruct (Heap.scan_from _ _) as [x|]; [|discriminate].
+  destruct (_ <=? _); [|discriminate].
+  destruct (Heap.bucket w x) as [|m b'] eqn:Eb; [discriminate|]. intros [= <- <-].
+  apply elem_ids. exists x. rewrite Eb. left.
+Qed.
+
+Lemma removeMin_inHeap w n w' : HeapSpec.inv w -> Heap.removeMin w = Some (n, w') -> Heap.mem w n = true.
+Proof.
+  intros I H. apply removeMin_in_ids in H. apply elem_ids in H as [x Hx].
+  unfold Heap.mem. apply bool_decide_eq_true. rewrite (hinOf_bucket w n x I Hx). unfold unset. lia.
+Qed.
+
+Lemma C03_popped_is_queued fuel p s always r :
+  passLoop (S fuel) p s always = Ok r -> 0 < Heap.cnt (heap s) ->
+  exists n w, Heap.removeMin (heap s) = Some (n, w) /\ n ∈ Heap.ids (heap s) /\
+    (HeapSpec.inv (heap s) -> inHeap s n = true) /\
+    let always' := if isAlways (nkind (nd s n)) then always ++ [n] else always in
+    exists s1 e1 at1, recomputeChain fuel p (s <| heap := w |>) n = Ok (s1, e1, at1) /\
+      match e1 with
+      | Some _ => r = (s1, e1, at1, always')
+      | None => passLoop fuel p s1 always' = Ok r
+      end.
+Proof.
+  cbn [passLoop]. intros H Hc. destruct (Z.leb_spec (Heap.cnt (heap s)) 0); [lia|].
+  destruct (Heap.removeMin (heap s)) as [[n w]|] eqn:Er; [|discriminate].
+  exists n, w. split; [reflexivity|]. split; [eapply removeMin_in_ids, Er|].
+  split; [intros I; eapply removeMin_inHeap; eauto|]. cbv zeta.
+  apply rbind_ok in H as ([[s1 e1] at1] & H1 & H). exists s1, e1, at1. split; [exact H1|].
+  destruct e1; [injection H as <-; reflexivity|exact H].
+Qed.
+
+Lemma C03_chain_step fuel p s n r :
+  recomputeChain (S fuel) p s n = Ok r ->
+  exists s1 e1 imm, recomputeNodeSerial fuel p s n = Ok (s1, e1, imm) /\
+    match e1, imm with
+    | None, Some c =>
+      c ∈ children (nd s1 n) /\ shouldRecomputeChild s1 c = true /\
+      canRecomputeImmediately s1 n c = true /\ recomputeChain fuel p s1 c = Ok r
+    | _, _ => r = (s1, e1, n)
+    end.
+Proof.
+  cbn [recomputeChain]. intros H. apply rbind_ok in H as ([[s1 e1] imm] & H1 & H).
+  exists s1, e1, imm. split; [exact H1|].
+  destruct e1 as [e1|]; [injection H as <-; reflexivity|].
+  destruct imm as [c|]; [|injection H as <-; reflexivity].
+  destruct (C03_immediate_child_is_owed _ _ _ _ _ _ _ H1) as (_ & A & B & C). auto.
+Qed.
+
+(** * 7. C11: cutoffs *)
+
+(* during a pass (status 1) the writes of a plan only defer: everything but [pending] fields
+   and [setDuring] is untouched *)
+Definition pendOnly (s s' : state) : Prop :=
+  heap s' = heap s /\ log s' = log s /\ stabNum s' = stabNum s /\ status s' = status s /\
+  handlers s' = handlers s /\ setRemoved s' = setRemoved s /\ obs s' = obs s /\ binds s' = binds s /\
+  (forall m, nd s' m = nd s m <| pending := pending (nd s' m) |>) /\
+  (forall m, is_Some (nodes s' !! m) <-> is_Some (nodes s !! m)).
+
+Lemma pendOnly_refl s : pendOnly s s.
+Proof. repeat split; auto. intros m. destruct (nd s m); reflexivity. Qed.
+
+Lemma pendOnly_trans s1 s2 s3 : pendOnly s1 s2 -> pendOnly s2 s3 -> pendOnly s1 s3.
+Proof.
+  intros (A1 & A2 & A3 & A4 & A5 & A6 & A7 & A8 & A9 & A10) (B1 & B2 & B3 & B4 & B5 & B6 & B7 & B8 & B9 & B10).
+  repeat (split; [congruence|]). split.
+  - intros m. rewrite (B9 m) at 1. rewrite (A9 m). destruct (nd s1 m); reflexivity.
+  - intros m. rewrite B10. apply A10.
+Qed.
+
+Lemma pendOnly_fields s s' m : pendOnly s s' ->
+  nkind (nd s' m) = nkind (nd s m) /\ decl (nd s' m) = decl (nd s m) /\ value (nd s' m) = value (nd s m) /\
+  recomputedAt (nd s' m) = recomputedAt (nd s m) /\ changedAt (nd s' m) = changedAt (nd s m) /\
+  height (nd s' m) = height (nd s m) /\ valid (nd s' m) = valid (nd s m) /\
+  parents (nd s' m) = parents (nd s m) /\ children (nd s' m) = children (nd s m) /\
+  observers (nd s' m) = observers (nd s m) /\ scope (nd s' m) = scope (nd s m) /\
+  isNecessary (nd s' m) = isNecessary (nd s m).
+Proof. intros (_ & _ & _ & _ & _ & _ & _ & _ & A & _). rewrite (A m). destruct (nd s m); repeat split. Qed.
+
+Lemma varSet_midpass_pendOnly s v x s' : status s = 1 -> varSet s v x = Ok s' -> pendOnly s s'.
+Proof.
+  intros Hst. rewrite (C12_midpass_set_is_deferred _ _ _ Hst). destruct (eqNoop s v x); intros [= <-].
+  - apply pendOnly_refl.
+  - destruct (deferSet_frame s v x) as (E1 & _ & _ & E4 & E5 & _ & _ & E8 & E9 & _ & E11 & E12 & _ & E14 & _ & En & _).
+    do 8 (split; [assumption|]). split; [exact En|].
+    intros m. unfold deferSet. change (is_Some (nodes (upd s v (set pending (fun _ => Some x))) !! m) <-> is_Some (nodes s !! m)).
+    apply some_upd.
+Qed.
+
+Lemma applyActions_midpass_gen acts : forall s f s' f',
+  status s = 1 ->
+  rfold (fun '(s, f) a =>
+         match f with
+         | Some _ => Ok (s, f)
+         | None =>
+           match a with
+           | AFail k => Ok (s, Some k)
+           | ASet v x => s <-! varSet s v x; Ok (s, None)
+           | AUpdate v d => s <-! varUpdate s v d; Ok (s, None)
+           end
+         end) acts (s, f) = Ok (s', f') -> pendOnly s s'.
+Proof.
+  induction acts as [|a acts IH]; intros s f s' f' Hst H; cbn [rfold] in H.
+  - injection H as <- <-. apply pendOnly_refl.
+  - apply rbind_ok in H as ([s1 f1] & H1 & H).
+    assert (P1 : pendOnly s s1).
+    { destruct f; [injection H1 as <- <-; apply pendOnly_refl|].
+      destruct a; [injection H1 as <- <-; apply pendOnly_refl| |];
+        apply rbind_ok in H1 as (s2 & H2 & [= <- <-]); eapply varSet_midpass_pendOnly; eauto. }
+    eapply pendOnly_trans; [exact P1|]. eapply IH; [|exact H].
+    destruct P1 as (_ & _ & _ & -> & _). exact Hst.
+Qed.
+
+Lemma invoke_midpass p s n w s' e :
+  status s = 1 -> invoke p s n w = Ok (s', e) ->
+  exists s1, pendOnly s s1 /\
+    s' = match firstFault (actions_of p n w) with Some k => emit (EvFault n w k) s1 | None => s1 end.
+Proof.
+  intros Hst. unfold invoke, applyActions. intros H. apply rbind_ok in H as ([s1 f] & H1 & H).
+  pose proof (applyActions_midpass_gen _ _ _ _ _ Hst H1) as P1.
+  apply applyActions_gen_spec in H1 as (_ & _ & _ & _ & ->). exists s1. split; [exact P1|].
+  destruct (firstFault _) as [[]|]; injection H as <- <-; reflexivity.
+Qed.
+
+Lemma valueOf_pendOnly s s' n : pendOnly s s' -> valueOf s' n = valueOf s n.
+Proof.
+  intros P. apply valueOf_ext. intros m. destruct (pendOnly_fields s s' m P) as (A & B & C & _). auto.
+Qed.
+
+Lemma valueOf_upd_keep s n f a :
+  (forall x, nkind (f x) = nkind x) -> (forall x, decl (f x) = decl x) -> (forall x, value (f x) = value x) ->
+  valueOf (upd s n f) a = valueOf s a.
+Proof.
+  intros H1 H2 H3. apply valueOf_ext. intros m.
+  split; [apply (nd_upd_keep nkind), H1|]. split; [apply (nd_upd_keep decl), H2|apply (nd_upd_keep value), H3].
+Qed.
+
+(** the cutoff test of a recompute during a pass *)
+Lemma maybeCutoff_midpass p s n c s1 e cut :
+  status s = 1 -> nkind (nd s n) = KCutoff c ->
+  let s0 := upd s n (set recomputedAt (fun _ => stabNum s)) in
+  let old := value (nd s n) in
+  let new := valueOf s (hd 0%nat (decl (nd s n))) in
+  maybeCutoff p s0 n (nd s n) = Ok (s1, e, cut) ->
+  exists t, pendOnly s0 t /\
+    match firstFault (actions_of p n WCut) with
+    | Some k => s1 = emit (EvFault n WCut k) t /\ e = Some (faultErr n k) /\ cut = false
+    | None => s1 = emit (EvCutoff n old new (apCut c old new)) t /\ e = None /\ cut = apCut c old new
+    end.
+Proof.
+  intros Hst Hk. cbv zeta. unfold maybeCutoff. rewrite Hk. intros H.
+  apply rbind_ok in H as ([s2 e2] & H2 & H). pose proof H2 as H2'.
+  apply invoke_midpass in H2 as (t & Pt & ->); [|exact Hst]. exists t. split; [exact Pt|].
+  apply invoke_spec in H2' as (-> & _).
+  assert (Ev : valueOf (upd s n (set recomputedAt (fun _ => stabNum s))) (hd 0%nat (decl (nd s n)))
+               = valueOf s (hd 0%nat (decl (nd s n)))) by (apply valueOf_upd_keep; intros []; reflexivity).
+  destruct (firstFault (actions_of p n WCut)) as [k|]; cbn [option_map] in H; injection H as <- <- <-.
+  - auto.
+  - rewrite Ev. auto.
+Qed.
+
+(** C11.1: a true verdict keeps the value and stops the propagation *)
+Lemma C11_cut_keeps_value_and_stops fuel p s n c s' e imm :
+  status s = 1 -> nkind (nd s n) = KCutoff c -> firstFault (actions_of p n WCut) = None ->
+  apCut c (value (nd s n)) (valueOf s (hd 0%nat (decl (nd s n)))) = true ->
+  recomputeNodeSerial fuel p s n = Ok (s', e, imm) ->
+  e = None /\ imm = None /\
+  log s' = EvCutoff n (value (nd s n)) (valueOf s (hd 0%nat (decl (nd s n)))) true :: log s /\
+  heap s' = heap s /\ handlers s' = handlers s /\
+  value (nd s' n) = value (nd s n) /\ changedAt (nd s' n) = changedAt (nd s n) /\
+  recomputedAt (nd s' n) = stabNum s /\
+  (* nothing but that stamp and deferred writes of the predicate: *)
+  exists t, pendOnly (upd s n (set recomputedAt (fun _ => stabNum s))) t /\
+            s' = emit (EvCutoff n (value (nd s n)) (valueOf s (hd 0%nat (decl (nd s n)))) true) t.
+Proof.
+  intros Hst Hk Hf Hcut. assert (Hs : is_Some (nodes s !! n)) by (apply nd_some_kind; rewrite Hk; discriminate).
+  rewrite recomputeNodeSerial_unfold. cbv zeta. intros H.
+  apply rbind_ok in H as ([[s1 e1] cut] & H1 & H).
+  apply (maybeCutoff_midpass p s n c s1 e1 cut Hst Hk) in H1 as (t & Pt & H1).
+  rewrite Hf, Hcut in H1. destruct H1 as (-> & -> & ->). injection H as <- <- <-.
+  split; [reflexivity|]. split; [reflexivity|].
+  pose proof Pt as (A1 & A2 & _ & _ & A5 & _).
+  split; [cbn; rewrite A2; reflexivity|]. split; [cbn; rewrite A1; reflexivity|].
+  split; [cbn; rewrite A5; reflexivity|].
+  destruct (pendOnly_fields _ _ n Pt) as (_ & _ & V & R & C & _).
+  change (nd (emit _ t) n) with (nd t n). rewrite V, C, R.
+  rewrite nd_upd_same by exact Hs.
+  split; [destruct (nd s n); reflexivity|]. split; [destruct (nd s n); reflexivity|].
+  split; [destruct (nd s n); reflexivity|]. exists t. auto.
+Qed.
+
+(* with no side effects planned for the predicate, the result is explicit *)
+Lemma C11_cut_exact fuel p s n c :
+  nkind (nd s n) = KCutoff c -> actions_of p n WCut = [] ->
+  apCut c (value (nd s n)) (valueOf s (hd 0%nat (decl (nd s n)))) = true ->
+  recomputeNodeSerial fuel p s n =
+  Ok (emit (EvCutoff n (value (nd s n)) (valueOf s (hd 0%nat (decl (nd s n)))) true)
+          (upd s n (set recomputedAt (fun _ => stabNum s))), None, None).
+Proof.
+  intros Hk Ha Hcut. rewrite recomputeNodeSerial_unfold. cbv zeta. unfold maybeCutoff, invoke, applyActions.
+  rewrite Hk, Ha. cbn [rfold rbind].
+  rewrite valueOf_upd_keep by (intros []; reflexivity). rewrite Hcut. reflexivity.
+Qed.
+
+(** no child is missed: after the success path, a dependent still owed a recompute is the one
+    handed back for immediate recompute *)
+Lemma childrenLoop_gen_complete l : forall (P : nid -> Prop) s held s' held',
+  (forall c, P c -> shouldRecomputeChild s c = true -> held = Some c) ->
+  rfold (fun '(s, held) c =>
+         if bool_decide (held = Some c) then Ok (s, held)
+         else if negb (shouldRecomputeChild s c) then Ok (s, held)
+         else
+           s <-! (match held with Some h => heapAdd s h | None => Ok s end);
+           Ok (s, Some c)) l (s, held) = Ok (s', held') ->
+  forall c, P c \/ c ∈ l -> shouldRecomputeChild s' c = true -> held' = Some c.
+Proof.
+  induction l as [|x l IH]; intros P s held s' held' J H; cbn [rfold] in H.
+  - injection H as <- <-. intros c [Hc|Hc]; [apply J, Hc|inversion Hc].
+  - apply rbind_ok in H as ([s1 h1] & H1 & H).
+    intros c Hc. apply (IH (fun c => P c \/ c = x) s1 h1 s' held') with (c := c); [|exact H|].
+    2:{ destruct Hc as [Hc|Hc]; [left; left; exact Hc|]. apply elem_of_cons in Hc as [->|Hc]; [left; right; reflexivity|right; exact Hc]. }
+    clear c Hc H. intros c Hc Hsc.
+    destruct (bool_decide (held = Some x)) eqn:Eb.
+    { injection H1 as <- <-. apply bool_decide_eq_true in Eb. destruct Hc as [Hc| ->]; [apply J; assumption|exact Eb]. }
+    apply bool_decide_eq_false in Eb.
+    destruct (shouldRecomputeChild s x) eqn:Es; cbn [negb] in H1.
+    2:{ injection H1 as <- <-. destruct Hc as [Hc| ->]; [apply J; assumption|congruence]. }
+    apply rbind_ok in H1 as (s2 & H2 & [= <- <-]).
+    destruct (decide (c = x)) as [->|Hne]; [reflexivity|]. exfalso.
+    destruct Hc as [Hc|Hc]; [|contradiction].
+    apply C03_child_queued_only_if_owed in Hsc as Hsc'. destruct Hsc' as (Hin & _).
+    destruct held as [h0|].
+    + assert (c <> h0).
+      { intros ->. rewrite (heapAdd_inHeap _ _ _ h0 H2), bool_decide_eq_true_2 in Hin by reflexivity. discriminate. }
+      rewrite (src_heapOnly s s2 c (heapAdd_heapOnly _ _ _ H2)) in Hsc.
+      2:{ rewrite (heapAdd_inHeap _ _ _ c H2), bool_decide_eq_false_2 by assumption. reflexivity. }
+      specialize (J c Hc Hsc). congruence.
+    + injection H2 as <-. specialize (J c Hc Hsc). discriminate.
+Qed.
+
+Lemma C03_no_child_missed s n s' e imm :
+  successTail s n = Ok (s', e, imm) ->
+  forall c, c ∈ children (nd s' n) -> shouldRecomputeChild s' c = true -> imm = Some c.
+Proof.
+  unfold successTail. set (t0 := insert_handler n _). intros H.
+  apply rbind_ok in H as ([t1 held] & H1 & H).
+  apply rbind_ok in H as ([t2 imm2] & H2 & [= <- <- <-]).
+  rewrite insert_handlers_eq.
+  pose proof (childrenLoop_heapOnly _ _ _ _ H1) as Ho1. unfold childrenLoop in H1.
+  pose proof (childrenLoop_gen_complete _ (fun _ => False) _ _ _ _ ltac:(intros ? []) H1) as Hcomp.
+  intros c Hc Hsc.
+  change (shouldRecomputeChild t2 c = true) in Hsc. change (c ∈ children (nd t2 n)) in Hc.
+  destruct held as [h|].
+  - destruct (canRecomputeImmediately t1 n h).
+    + injection H2 as <- <-. apply Hcomp; [right|exact Hsc]. rewrite <- (heapOnly_nd _ _ n Ho1). exact Hc.
+    + apply rbind_ok in H2 as (t3 & H3 & [= <- <-]). exfalso.
+      pose proof (heapAdd_heapOnly _ _ _ H3) as Ho3.
+      apply C03_child_queued_only_if_owed in Hsc as Hsc'. destruct Hsc' as (Hin & _).
+      assert (c <> h).
+      { intros ->. rewrite (heapAdd_inHeap _ _ _ h H3), bool_decide_eq_true_2 in Hin by reflexivity. discriminate. }
+      rewrite (src_heapOnly t1 t3 c Ho3) in Hsc.
+      2:{ rewrite (heapAdd_inHeap _ _ _ c H3), bool_decide_eq_false_2 by assumption. reflexivity. }
+      assert (Some h = Some c); [|congruence].
+      apply Hcomp; [right|exact Hsc]. rewrite <- (heapOnly_nd _ _ n Ho1), <- (heapOnly_nd _ _ n Ho3). exact Hc.
+  - injection H2 as <- <-. exfalso.
+    assert (None = Some c); [|discriminate].
+    apply Hcomp; [right|exact Hsc]. rewrite <- (heapOnly_nd _ _ n Ho1). exact Hc.
+Qed.
+
+(** C11.2: a false verdict takes the input's value, marks the node changed, and leaves no owed
+    dependent behind *)
+Lemma C11_pass_takes_input_value fuel p s n c s' e imm :
+  status s = 1 -> nkind (nd s n) = KCutoff c -> firstFault (actions_of p n WCut) = None ->
+  apCut c (value (nd s n)) (valueOf s (hd 0%nat (decl (nd s n)))) = false ->
+  recomputeNodeSerial fuel p s n = Ok (s', e, imm) ->
+  e = None /\
+  value (nd s' n) = valueOf s (hd 0%nat (decl (nd s n))) /\
+  changedAt (nd s' n) = stabNum s /\ recomputedAt (nd s' n) = stabNum s /\
+  n ∈ handlers s' /\ (forall o, o ∈ observers (nd s' n) -> o ∈ handlers s') /\
+  (forall d, d ∈ children (nd s' n) -> shouldRecomputeChild s' d = true -> imm = Some d) /\
+  (forall d, imm = Some d -> d ∈ children (nd s' n) /\ shouldRecomputeChild s' d = true /\
+                             canRecomputeImmediately s' n d = true).
+Proof.
+  intros Hst Hk Hf Hcut Hrec. pose proof Hrec as H.
+  assert (Hs : is_Some (nodes s !! n)) by (apply nd_some_kind; rewrite Hk; discriminate).
+  rewrite recomputeNodeSerial_unfold in H. cbv zeta in H.
+  apply rbind_ok in H as ([[s1 e1] cut] & H1 & H).
+  apply (maybeCutoff_midpass p s n c s1 e1 cut Hst Hk) in H1 as (t & Pt & H1).
+  rewrite Hf, Hcut in H1. destruct H1 as (-> & -> & ->).
+  set (s0 := upd s n (set recomputedAt (fun _ => stabNum s))) in *.
+  set (ev := EvCutoff _ _ _ _) in *.
+  assert (E0 : nd s0 n = nd s n <| recomputedAt := stabNum s |>) by (apply nd_upd_same, Hs).
+  destruct (pendOnly_fields _ _ n Pt) as (K1 & D1 & V1 & R1 & C1 & _).
+  assert (Kt : nkind (nd (emit ev t) n) = KCutoff c).
+  { change (nkind (nd t n) = KCutoff c). rewrite K1, E0, <- Hk. destruct (nd s n); reflexivity. }
+  assert (Dt : decl (nd (emit ev t) n) = decl (nd s n)).
+  { change (decl (nd t n) = decl (nd s n)). rewrite D1, E0. destruct (nd s n); reflexivity. }
+  assert (Vt : forall a, valueOf (emit ev t) a = valueOf s a).
+  { intros a. transitivity (valueOf t a); [apply valueOf_ext; intros m; auto|].
+    rewrite (valueOf_pendOnly _ _ a Pt). apply valueOf_upd_keep; intros []; reflexivity. }
+  assert (St : is_Some (nodes (emit ev t) !! n)).
+  { destruct Pt as (_ & _ & _ & _ & _ & _ & _ & _ & _ & Hd). apply Hd, some_upd, Hs. }
+  assert (Sn : stabNum (emit ev t) = stabNum s) by (destruct Pt as (_ & _ & E & _); exact E).
+  unfold stabilizeNode in H. rewrite Kt, Dt, Vt in H. unfold ok in H. cbn [rbind] in H.
+  set (s2 := upd (emit ev t) n _) in *.
+  assert (E2 : nd s2 n = nd (emit ev t) n <| value := valueOf s (hd 0%nat (decl (nd s n))) |>) by (apply nd_upd_same, St).
+  pose proof H as Hsucc.
+  apply successTail_shape in H as (-> & Hh). split; [reflexivity|].
+  assert (En : nd s' n = nd s2 n <| changedAt := stabNum s |>).
+  { rewrite (hhOnly_nd _ _ n Hh). rewrite nd_upd_same by (apply some_upd, St).
+    change (stabNum s2) with (stabNum (emit ev t)). rewrite Sn. reflexivity. }
+  split; [rewrite En, E2; destruct (nd (emit ev t) n); reflexivity|].
+  split; [rewrite En; destruct (nd s2 n); reflexivity|].
+  split.
+  { rewrite En, E2. change (nd (emit ev t) n) with (nd t n).
+    transitivity (recomputedAt (nd t n)); [destruct (nd t n); reflexivity|]. rewrite R1, E0. destruct (nd s n); reflexivity. }
+  destruct (C13_changed_node_is_queued_for_handler _ _ _ _ _ Hsucc) as (A1 & A2 & _).
+  split; [exact A1|]. split; [exact A2|]. split; [apply (C03_no_child_missed _ _ _ _ _ Hsucc)|].
+  intros d ->. destruct (C03_immediate_child_is_owed _ _ _ _ _ _ _ Hrec) as (_ & B1 & B2 & B3). auto.
+Qed.
+
+(** C11.3: writing a VarEqual the value it holds is a no-op: the state is literally unchanged *)
+Lemma C11_varequal_noop s v :
+  nkind (nd s v) = KVar true -> pending (nd s v) = None -> varSet s v (value (nd s v)) = Ok s.
+Proof.
+  intros Hk Hp. rewrite varSet_unfold. unfold eqNoop. rewrite Hk, Hp, Z.eqb_refl.
+  rewrite bool_decide_eq_false_2 by (intros [? [=]]). reflexivity.
+Qed.
+
+(* hence, from a quiescent state with an empty heap, the next pass runs nothing on its account *)
+Lemma C11_varequal_noop_pass s v p c s1 :
+  nkind (nd s v) = KVar true -> pending (nd s v) = None ->
+  status s = 0 -> Heap.cnt (heap s) <= 0 -> setDuring s = [] -> setRemoved s = [] ->
+  run s [SetVar v (value (nd s v))] = Ok s1 ->
+  s1 = s /\ stabilize p c s1 = Ok (passEpilogue s [EvPassEnd XOk; EvPassStart], None).
+Proof.
+  intros Hk Hp Hst Hc E1 E2. cbn [run op_ok step]. 
+  assert (Hv : isVar s v = true) by (apply isVar_spec; eauto). rewrite Hv.
+  rewrite C11_varequal_noop by assumption. cbn. intros [= <-]. split; [reflexivity|].
+  apply C03_idle_pass_runs_nothing; assumption.
+Qed.
+
+(** C11.4: an equality cutoff always ends up holding its input's value *)
+Lemma C11_equal_cutoff_consistent fuel p s n s' e imm :
+  status s = 1 -> nkind (nd s n) = KCutoff CEq -> firstFault (actions_of p n WCut) = None ->
+  recomputeNodeSerial fuel p s n = Ok (s', e, imm) ->
+  e = None /\ value (nd s' n) = valueOf s (hd 0%nat (decl (nd s n))).
+Proof.
+  intros Hst Hk Hf H.
+  destruct (apCut CEq (value (nd s n)) (valueOf s (hd 0%nat (decl (nd s n))))) eqn:Ec.
+  - destruct (C11_cut_keeps_value_and_stops _ _ _ _ _ _ _ _ Hst Hk Hf Ec H) as (A1 & _ & _ & _ & _ & A2 & _).
+    split; [exact A1|]. rewrite A2. apply Z.eqb_eq. exact Ec.
+  - destruct (C11_pass_takes_input_value _ _ _ _ _ _ _ _ Hst Hk Hf Ec H) as (A1 & A2 & _). auto.
 Qed.
